@@ -1,7 +1,7 @@
 (* C13 -- proofs about ModelDapBp.v *)
 From BS Require Import Model.Base.
 From W Require Import ModelDapBp.
-From Coq Require Import Lia.
+From Coq Require Import Lia Permutation.
 Open Scope N_scope.
 
 (* ------------------------------------------------------------------------- *)
@@ -95,7 +95,7 @@ Proof.
 Qed.
 
 (* ------------------------------------------------------------------------- *)
-(** * The debugger side while the debuggee is running                          *)
+(** * The breakpoint registry as a set of (location, number) entries           *)
 Section Inv.
   Variable rl : N -> N -> list N.
   Variable rf : N -> list N.
@@ -103,368 +103,772 @@ Section Inv.
   Variable wo : N -> bool.
   Variable bias : N.
 
-  Definition IP (d : dbg) : Prop := d_phase d = InProgress /\ d_dis d = [].
+  Notation loc := (dis_loc bias).
+  Definition dis_ents (l : list (addr * N)) : list (N * N) := map (fun e => (loc (fst e), snd e)) l.
+  Definition ents (d : dbg) : list (N * N) := d_en d ++ dis_ents (d_dis d).
 
-  Lemma IP_in_progress : forall d, IP d -> in_progress d = true.
-  Proof. intros d [H _]. unfold in_progress. rewrite H. reflexivity. Qed.
+  (* "a map": one value per key; "numbers identify": one key per number *)
+  Definition kf {K} (l : list (K * N)) : Prop :=
+    forall e e', In e l -> In e' l -> fst e = fst e' -> snd e = snd e'.
+  Definition nf {K} (l : list (K * N)) : Prop :=
+    forall e e', In e l -> In e' l -> snd e = snd e' -> fst e = fst e'.
 
-  Lemma dbg_remove_IP : forall d k, IP d ->
-    IP (dbg_remove d k) /\ d_num (dbg_remove d k) = d_num d /\
-    forall x, In x (en_keys (dbg_remove d k)) <-> In x (en_keys d) /\ k <> Rel x.
+  Record WF (d : dbg) : Prop := mk_WF {
+    w_ip : d_phase d = InProgress -> d_dis d = [];
+    w_nip : d_phase d <> InProgress -> d_en d = [];
+    w_kf_en : kf (d_en d); w_nf_en : nf (d_en d);
+    w_kf_dis : kf (d_dis d); w_nf_dis : nf (d_dis d);
+    w_lt : forall e, In e (ents d) -> snd e < d_num d;
+    w_val : forall a n, In (Rel a, n) (d_dis d) -> valid va bias a = true
+  }.
+
+  Lemma phase_dec : forall p : phase, p = InProgress \/ p <> InProgress.
+  Proof. intros []; [right; discriminate | left; reflexivity | right; discriminate]. Qed.
+
+  Lemma in_progress_true : forall d, in_progress d = true <-> d_phase d = InProgress.
+  Proof. intro d. unfold in_progress. destruct (d_phase d); cbn; split; intro H; try reflexivity; discriminate. Qed.
+  Lemma in_progress_false : forall d, in_progress d = false <-> d_phase d <> InProgress.
   Proof.
-    intros d k [Hp Hd]. unfold dbg_remove. rewrite Hd. cbn [dis_has existsb].
-    destruct k as [a|g].
-    - split; [split; [exact Hp | exact Hd]|]. split; [reflexivity|].
-      intro x. unfold en_keys, with_en. cbn [d_en]. rewrite en_remove_keys.
-      split; intros [H1 H2]; split; try exact H1; intro E; apply H2; congruence.
-    - split; [split; assumption|]. split; [reflexivity|]. intro x. split.
-      + intro H; split; [exact H | discriminate].
-      + intros [H _]; exact H.
+    intro d. unfold in_progress. destruct (d_phase d); cbn; split; intro H; try reflexivity; try discriminate.
+    exfalso; apply H; reflexivity.
   Qed.
 
-  Lemma remove_addrs_IP : forall l d, IP d ->
-    IP (remove_addrs l d) /\
-    forall x, In x (en_keys (remove_addrs l d)) <-> In x (en_keys d) /\ ~ In (Rel x) l.
+  Lemma in_dis_ents : forall l e, In e (dis_ents l) <-> exists k, In (k, snd e) l /\ fst e = loc k.
   Proof.
-    unfold remove_addrs.
-    induction l as [|k t IH]; intros d Hd; cbn [fold_left].
-    - split; [exact Hd|]. intro x. split; [intro H; split; [exact H | intros []] | intros [H _]; exact H].
-    - destruct (dbg_remove_IP d k Hd) as [H1 [_ H2]].
-      destruct (IH _ H1) as [H3 H4]. split; [exact H3|].
-      intro x. rewrite H4, H2. cbn [In]. split.
-      + intros [[Ha Hb] Hc]. split; [exact Ha|]. intros [E|E]; [exact (Hb E) | exact (Hc E)].
-      + intros [Ha Hb]. split; [split; [exact Ha|]|]; intro E; apply Hb; [left|right]; exact E.
+    intros l [x n]. unfold dis_ents. rewrite in_map_iff. cbn [fst snd]. split.
+    - intros [[k m] [He Hi]]. cbn [fst snd] in He. inversion He; subst. exists k. split; [exact Hi | reflexivity].
+    - intros [k [Hi Hx]]. exists (k, n). cbn [fst snd]. split; [rewrite Hx; reflexivity | exact Hi].
   Qed.
 
-  Lemma remove_records_flat : forall rs d, remove_records rs d = remove_addrs (flat_map r_addrs rs) d.
+  Lemma kf_sub : forall K (l l' : list (K * N)), (forall e, In e l' -> In e l) -> kf l -> kf l'.
+  Proof. intros K l l' Hs H e e' H1 H2. apply H; auto. Qed.
+  Lemma nf_sub : forall K (l l' : list (K * N)), (forall e, In e l' -> In e l) -> nf l -> nf l'.
+  Proof. intros K l l' Hs H e e' H1 H2. apply H; auto. Qed.
+
+  Lemma en_remove_In : forall a l e, In e (en_remove a l) <-> In e l /\ fst e <> a.
   Proof.
-    unfold remove_records, remove_addrs.
+    intros a l e. unfold en_remove. rewrite filter_In. split; intros [H1 H2]; split; try exact H1.
+    - intro E. rewrite E, N.eqb_refl in H2. discriminate.
+    - destruct (N.eqb_spec (fst e) a); [contradiction | reflexivity].
+  Qed.
+  Lemma dis_remove_In : forall k l e, In e (dis_remove k l) <-> In e l /\ fst e <> k.
+  Proof.
+    intros k l e. unfold dis_remove. rewrite filter_In. split; intros [H1 H2]; split; try exact H1.
+    - intro E. rewrite E, addr_eqb_refl in H2. discriminate.
+    - destruct (addr_eqb (fst e) k) eqn:E; [apply addr_eqb_eq in E; contradiction | reflexivity].
+  Qed.
+
+  Lemma find_num_some : forall K (l : list (K * N)) n e,
+    find (fun e => snd e =? n) l = Some e -> In e l /\ snd e = n.
+  Proof. intros K l n e H. apply find_some in H. destruct H as [H1 H2]. apply N.eqb_eq in H2. tauto. Qed.
+  Lemma find_num_none : forall K (l : list (K * N)) n,
+    find (fun e => snd e =? n) l = None -> forall e, In e l -> snd e <> n.
+  Proof. intros K l n H e Hi E. pose proof (find_none _ _ H e Hi) as Hn. cbn in Hn. rewrite E, N.eqb_refl in Hn. discriminate. Qed.
+
+  (** remove_breakpoint_by_number removes exactly the entries carrying that number *)
+  Lemma remove_num_sem : forall d n, WF d ->
+    WF (dbg_remove_num d n) /\ d_num (dbg_remove_num d n) = d_num d /\
+    d_phase (dbg_remove_num d n) = d_phase d /\
+    forall e, In e (ents (dbg_remove_num d n)) <-> In e (ents d) /\ snd e <> n.
+  Proof.
+    intros d n W. pose proof W as [Wip Wnip Wke Wne Wkd Wnd Wlt Wv].
+    unfold dbg_remove_num.
+    destruct (find (fun e => snd e =? n) (d_dis d)) as [e0|] eqn:Fd.
+    - (* found among the disabled ones *)
+      apply find_num_some in Fd. destruct Fd as [Hi0 Hn0].
+      assert (Hnip : d_phase d <> InProgress) by (intro Hp; rewrite (Wip Hp) in Hi0; exact Hi0).
+      pose proof (Wnip Hnip) as Hen.
+      unfold dbg_remove. replace (dis_has (fst e0) (d_dis d)) with true.
+      2:{ symmetry. unfold dis_has. apply existsb_exists. exists e0. split; [exact Hi0 | apply addr_eqb_refl]. }
+      assert (Hsem : forall e', In e' (dis_remove (fst e0) (d_dis d)) <-> In e' (d_dis d) /\ snd e' <> n).
+      { intro e'. rewrite dis_remove_In. split; intros [H1 H2]; split; try exact H1.
+        - intro E. apply H2. apply Wnd; auto. congruence.
+        - intro E. apply H2. rewrite <- Hn0. apply Wkd; auto. }
+      split; [|split; [reflexivity|split; [reflexivity|]]].
+      + constructor; unfold with_dis; cbn [d_phase d_en d_dis d_num].
+        * intro Hp. contradiction.
+        * intro; exact Hen.
+        * exact Wke. * exact Wne.
+        * eapply kf_sub; [|exact Wkd]. intros e He. apply Hsem in He. tauto.
+        * eapply nf_sub; [|exact Wnd]. intros e He. apply Hsem in He. tauto.
+        * intros e He. apply Wlt. unfold ents in *. cbn [d_en d_dis] in He. rewrite in_app_iff in *.
+          destruct He as [He|He]; [left; exact He|]. right. apply in_dis_ents in He. destruct He as [k [Hk Hx]].
+          apply in_dis_ents. exists k. split; [|exact Hx]. apply Hsem in Hk. tauto.
+        * intros a m He. apply Hsem in He. eapply Wv. apply He.
+      + intro e. unfold ents, with_dis. cbn [d_en d_dis]. rewrite Hen. cbn [app]. rewrite !in_dis_ents. split.
+        * intros [k [Hk Hx]]. apply Hsem in Hk. destruct Hk as [Hk Hne]. split; [exists k; tauto | exact Hne].
+        * intros [[k [Hk Hx]] Hne]. exists k. split; [apply Hsem; tauto | exact Hx].
+    - pose proof (find_num_none _ _ _ Fd) as Hnd.
+      destruct (find (fun e => snd e =? n) (d_en d)) as [e0|] eqn:Fe.
+      + apply find_num_some in Fe. destruct Fe as [Hi0 Hn0].
+        assert (Hp : d_phase d = InProgress).
+        { destruct (phase_dec (d_phase d)) as [Hp|Hp]; [exact Hp|]. rewrite (Wnip Hp) in Hi0. destruct Hi0. }
+        pose proof (Wip Hp) as Hdis.
+        unfold dbg_remove. rewrite Hdis. cbn [dis_has existsb].
+        assert (Hsem : forall e', In e' (en_remove (fst e0) (d_en d)) <-> In e' (d_en d) /\ snd e' <> n).
+        { intro e'. rewrite en_remove_In. split; intros [H1 H2]; split; try exact H1.
+          - intro E. apply H2. apply Wne; auto. congruence.
+          - intro E. apply H2. rewrite <- Hn0. apply Wke; auto. }
+        split; [|split; [reflexivity|split; [reflexivity|]]].
+        * constructor; unfold with_en; cbn [d_phase d_en d_dis d_num].
+          -- intro; exact Hdis.
+          -- intro Hq. contradiction.
+          -- eapply kf_sub; [|exact Wke]. intros e He. apply Hsem in He. tauto.
+          -- eapply nf_sub; [|exact Wne]. intros e He. apply Hsem in He. tauto.
+          -- exact Wkd. -- exact Wnd.
+          -- intros e He. apply Wlt. unfold ents in *. cbn [d_en d_dis] in He. rewrite in_app_iff in *.
+             destruct He as [He|He]; [left; apply Hsem in He; tauto | right; exact He].
+          -- exact Wv.
+        * intro e. unfold ents, with_en. cbn [d_en d_dis]. rewrite Hdis. cbn [dis_ents map]. rewrite !app_nil_r.
+          apply Hsem.
+      + pose proof (find_num_none _ _ _ Fe) as Hne.
+        split; [exact W|]. split; [reflexivity|]. split; [reflexivity|].
+        intro e. split; [|tauto]. intro He. split; [exact He|].
+        unfold ents in He. apply in_app_iff in He. destruct He as [He|He]; [apply Hne; exact He|].
+        apply in_dis_ents in He. destruct He as [k [Hk _]]. apply (Hnd _ Hk).
+  Qed.
+
+  Lemma remove_nums_sem : forall l d, WF d ->
+    WF (remove_nums l d) /\ d_num (remove_nums l d) = d_num d /\ d_phase (remove_nums l d) = d_phase d /\
+    forall e, In e (ents (remove_nums l d)) <-> In e (ents d) /\ ~ In (snd e) l.
+  Proof.
+    unfold remove_nums. induction l as [|n t IH]; intros d W; cbn [fold_left].
+    - split; [exact W|]. split; [reflexivity|]. split; [reflexivity|]. intro e. cbn [In]. tauto.
+    - destruct (remove_num_sem d n W) as [W1 [Hn1 [Hp1 Hs1]]].
+      destruct (IH _ W1) as [W2 [Hn2 [Hp2 Hs2]]].
+      split; [exact W2|]. split; [congruence|]. split; [congruence|].
+      intro e. rewrite Hs2, Hs1. cbn [In]. split.
+      + intros [[H1 H2] H3]. split; [exact H1|]. intros [E|E]; [apply H2; symmetry; exact E | exact (H3 E)].
+      + intros [H1 H2]. split; [split; [exact H1|]|]; intro E; apply H2; [left; symmetry; exact E | right; exact E].
+  Qed.
+
+  Lemma remove_records_flat : forall rs d, remove_records rs d = remove_nums (flat_map r_nums rs) d.
+  Proof.
+    unfold remove_records, remove_nums.
     induction rs as [|r t IH]; intro d; cbn [fold_left flat_map]; [reflexivity|].
     rewrite fold_left_app. apply IH.
   Qed.
 
-  Lemma add_place_IP : forall g d, IP d ->
-    IP (add_place bias g d) /\
-    forall x, In x (en_keys (add_place bias g d)) <-> x = bias + g \/ In x (en_keys d).
+  (** ** adding breakpoints *)
+  Definition lim32 : N := 4294967296.
+  Lemma next_num_small : forall n, n + 1 < lim32 -> next_num n = n + 1.
+  Proof. intros n H. unfold next_num. apply N.mod_small. exact H. Qed.
+
+  (* inserting a fresh number at a fresh location (key form decided by the phase) *)
+  Lemma insert_sem : forall d x k, WF d -> d_num d + 1 < lim32 ->
+    (forall e, In e (ents d) -> fst e <> x) ->
+    (d_phase d <> InProgress -> loc k = x) ->
+    (d_phase d <> InProgress -> forall a, k = Rel a -> valid va bias a = true) ->
+    let d' := if in_progress d
+              then mk_dbg (d_phase d) (en_insert x (d_num d) (d_en d)) (d_dis d) (next_num (d_num d)) (d_wps d)
+              else mk_dbg (d_phase d) (d_en d) (dis_insert k (d_num d) (d_dis d)) (next_num (d_num d)) (d_wps d) in
+    WF d' /\ d_num d' = d_num d + 1 /\ d_phase d' = d_phase d /\
+    forall e, In e (ents d') <-> e = (x, d_num d) \/ In e (ents d).
   Proof.
-    intros g d Hd. unfold add_place. rewrite (IP_in_progress d Hd). destruct Hd as [Hp Hdis].
-    split; [split; assumption|]. intro x. unfold en_keys. cbn [d_en]. apply en_insert_keys.
+    intros d x k W Hlim Hfresh Hk2 Hkv. pose proof W as [Wip Wnip Wke Wne Wkd Wnd Wlt Wv].
+    destruct (phase_dec (d_phase d)) as [Hp|Hp].
+    - (* running: the enabled map *)
+      rewrite (proj2 (in_progress_true d) Hp). cbn zeta. pose proof (Wip Hp) as Hdis.
+      assert (Hrem : forall e, In e (en_remove x (d_en d)) <-> In e (d_en d)).
+      { intro e. rewrite en_remove_In. split; [tauto|]. intro H. split; [exact H|].
+        apply Hfresh. unfold ents. apply in_or_app. left; exact H. }
+      assert (Hsem : forall e, In e (en_insert x (d_num d) (d_en d)) <-> e = (x, d_num d) \/ In e (d_en d)).
+      { intro e. unfold en_insert. cbn [In]. rewrite Hrem. split; intros [H|H]; auto. }
+      assert (Hltn : forall e, In e (d_en d) -> snd e < d_num d).
+      { intros e He. apply Wlt. unfold ents. apply in_or_app. left; exact He. }
+      split; [|split; [cbn [d_num]; apply next_num_small; exact Hlim|split; [reflexivity|]]].
+      + constructor; cbn [d_phase d_en d_dis d_num].
+        * intro; exact Hdis.
+        * intro Hq; contradiction.
+        * intros e e' H1 H2 Hf. apply Hsem in H1. apply Hsem in H2.
+          destruct H1 as [->|H1]; destruct H2 as [->|H2]; cbn [fst snd] in *.
+          -- reflexivity.
+          -- exfalso. apply (Hfresh e'); [unfold ents; apply in_or_app; left; exact H2 | symmetry; exact Hf].
+          -- exfalso. apply (Hfresh e); [unfold ents; apply in_or_app; left; exact H1 | exact Hf].
+          -- apply Wke; auto.
+        * intros e e' H1 H2 Hf. apply Hsem in H1. apply Hsem in H2.
+          destruct H1 as [->|H1]; destruct H2 as [->|H2]; cbn [fst snd] in *.
+          -- reflexivity.
+          -- pose proof (Hltn _ H2). lia.
+          -- pose proof (Hltn _ H1). lia.
+          -- apply Wne; auto.
+        * exact Wkd. * exact Wnd.
+        * intros e He. rewrite next_num_small by exact Hlim. unfold ents in He. cbn [d_en d_dis] in He.
+          rewrite Hdis in He. cbn [dis_ents map] in He. rewrite app_nil_r in He. apply Hsem in He.
+          destruct He as [->|He]; [cbn [snd]; lia | pose proof (Hltn _ He); lia].
+        * exact Wv.
+      + intro e. unfold ents. cbn [d_en d_dis]. rewrite Hdis. cbn [dis_ents map]. rewrite !app_nil_r. apply Hsem.
+    - (* not running: the disabled map, key k *)
+      rewrite (proj2 (in_progress_false d) Hp). cbn zeta. pose proof (Wnip Hp) as Hen. specialize (Hk2 Hp).
+      assert (Hin : forall e, In e (d_dis d) -> In (loc (fst e), snd e) (ents d)).
+      { intros e He. unfold ents. apply in_or_app. right. apply in_dis_ents. exists (fst e). cbn [fst snd].
+        split; [destruct e; exact He | reflexivity]. }
+      assert (Hrem : forall e, In e (dis_remove k (d_dis d)) <-> In e (d_dis d)).
+      { intro e. rewrite dis_remove_In. split; [tauto|]. intro H. split; [exact H|].
+        intro E. apply (Hfresh _ (Hin _ H)). cbn [fst]. rewrite E. exact Hk2. }
+      assert (Hsem : forall e, In e (dis_insert k (d_num d) (d_dis d)) <-> e = (k, d_num d) \/ In e (d_dis d)).
+      { intro e. unfold dis_insert. cbn [In]. rewrite Hrem. split; intros [H|H]; auto. }
+      assert (Hltn : forall e, In e (d_dis d) -> snd e < d_num d).
+      { intros e He. apply (Wlt _ (Hin _ He)). }
+      split; [|split; [cbn [d_num]; apply next_num_small; exact Hlim|split; [reflexivity|]]].
+      + constructor; cbn [d_phase d_en d_dis d_num].
+        * intro Hq; contradiction.
+        * intro; exact Hen.
+        * exact Wke. * exact Wne.
+        * intros e e' H1 H2 Hf. apply Hsem in H1. apply Hsem in H2.
+          destruct H1 as [->|H1]; destruct H2 as [->|H2]; cbn [fst snd] in *.
+          -- reflexivity.
+          -- exfalso. apply (Hfresh _ (Hin _ H2)). cbn [fst]. rewrite <- Hf. exact Hk2.
+          -- exfalso. apply (Hfresh _ (Hin _ H1)). cbn [fst]. rewrite Hf. exact Hk2.
+          -- apply Wkd; auto.
+        * intros e e' H1 H2 Hf. apply Hsem in H1. apply Hsem in H2.
+          destruct H1 as [->|H1]; destruct H2 as [->|H2]; cbn [fst snd] in *.
+          -- reflexivity.
+          -- pose proof (Hltn _ H2). lia.
+          -- pose proof (Hltn _ H1). lia.
+          -- apply Wnd; auto.
+        * intros e He. rewrite next_num_small by exact Hlim. unfold ents in He. cbn [d_en d_dis] in He.
+          rewrite Hen in He. cbn [app] in He. apply in_dis_ents in He. destruct He as [k' [Hk' _]].
+          apply Hsem in Hk'. destruct Hk' as [E|Hk']; [inversion E; lia | pose proof (Hltn _ Hk') as Hl; cbn [snd] in Hl; lia].
+        * intros a m He. apply Hsem in He. destruct He as [E|He]; [inversion E; subst; apply (Hkv Hp); reflexivity | eapply Wv; exact He].
+      + intro e. unfold ents. cbn [d_en d_dis]. rewrite Hen. cbn [app]. rewrite !in_dis_ents. split.
+        * intros [k' [Hk' Hx]]. apply Hsem in Hk'. destruct Hk' as [E|Hk'].
+          -- left. inversion E; subst. destruct e as [ex en]. cbn [fst snd] in *. subst. reflexivity.
+          -- right. exists k'. tauto.
+        * intros [->|[k' [Hk' Hx]]].
+          -- exists k. cbn [fst snd]. split; [apply Hsem; left; reflexivity | symmetry; exact Hk2].
+          -- exists k'. split; [apply Hsem; right; exact Hk' | exact Hx].
   Qed.
 
-  Lemma add_places_IP : forall gs d, IP d ->
-    IP (add_places bias gs d) /\
-    forall x, In x (en_keys (add_places bias gs d)) <-> In x (map (N.add bias) gs) \/ In x (en_keys d).
+  Lemma add_place_sem : forall g d, WF d -> d_num d + 1 < lim32 ->
+    (forall e, In e (ents d) -> fst e <> bias + g) ->
+    WF (add_place bias g d) /\ d_num (add_place bias g d) = d_num d + 1 /\
+    d_phase (add_place bias g d) = d_phase d /\
+    forall e, In e (ents (add_place bias g d)) <-> e = (bias + g, d_num d) \/ In e (ents d).
   Proof.
-    induction gs as [|g t IH]; intros d Hd; cbn [add_places map In].
-    - split; [exact Hd|]. intro x; split; [intro H; right; exact H | intros [[]|H]; exact H].
-    - destruct (add_place_IP g d Hd) as [H1 H2]. destruct (IH _ H1) as [H3 H4].
-      split; [exact H3|]. intro x. rewrite H4, H2. split.
+    intros g d W Hl Hf. unfold add_place.
+    apply (insert_sem d (bias + g) (Glob g) W Hl Hf).
+    - reflexivity.
+    - intros _ a E. discriminate.
+  Qed.
+
+  Lemma set_addr_sem : forall a d, WF d -> d_num d + 1 < lim32 ->
+    (forall e, In e (ents d) -> fst e <> a) -> valid va bias a = true ->
+    WF (fst (dbg_set_addr va bias d a)) /\ d_num (fst (dbg_set_addr va bias d a)) = d_num d + 1 /\
+    d_phase (fst (dbg_set_addr va bias d a)) = d_phase d /\ snd (dbg_set_addr va bias d a) = [Rel a] /\
+    forall e, In e (ents (fst (dbg_set_addr va bias d a))) <-> e = (a, d_num d) \/ In e (ents d).
+  Proof.
+    intros a d W Hl Hf Hv. unfold dbg_set_addr. rewrite Hv.
+    pose proof (insert_sem d a (Rel a) W Hl Hf (fun _ => eq_refl)) as H.
+    assert (Hk : d_phase d <> InProgress -> forall a0, Rel a = Rel a0 -> valid va bias a0 = true)
+      by (intros _ a0 E; inversion E; subst; exact Hv).
+    specialize (H Hk). cbn zeta in H.
+    destruct (in_progress d); cbn [fst snd]; destruct H as [H1 [H2 [H3 H4]]];
+      (split; [exact H1 | split; [exact H2 | split; [exact H3 | split; [reflexivity | exact H4]]]]).
+  Qed.
+
+  Lemma nums_from_length : forall k n, length (nums_from n k) = k.
+  Proof. induction k as [|k IH]; intro n; cbn [nums_from length]; [reflexivity | rewrite IH; reflexivity]. Qed.
+
+  Lemma add_places_sem : forall gs d, WF d -> d_num d + N.of_nat (length gs) < lim32 ->
+    NoDup (map (N.add bias) gs) ->
+    (forall e, In e (ents d) -> ~ In (fst e) (map (N.add bias) gs)) ->
+    WF (add_places bias gs d) /\ d_num (add_places bias gs d) = d_num d + N.of_nat (length gs) /\
+    d_phase (add_places bias gs d) = d_phase d /\
+    forall e, In e (ents (add_places bias gs d)) <->
+              In e (combine (map (N.add bias) gs) (nums_from (d_num d) (length gs))) \/ In e (ents d).
+  Proof.
+    induction gs as [|g t IH]; intros d W Hl Hnd Hf; cbn [add_places map length nums_from combine].
+    - split; [exact W|]. split; [cbn; lia|]. split; [reflexivity|]. intro e. cbn [In]. tauto.
+    - cbn [map] in Hnd, Hf. inversion Hnd as [|? ? Hni Hnd']; subst.
+      assert (Hl1 : d_num d + 1 < lim32) by (cbn [length] in Hl; lia).
+      destruct (add_place_sem g d W Hl1) as [W1 [Hn1 [Hp1 Hs1]]].
+      { intros e He E. apply (Hf e He). left. symmetry. exact E. }
+      destruct (IH (add_place bias g d) W1) as [W2 [Hn2 [Hp2 Hs2]]].
+      { rewrite Hn1. cbn [length] in Hl. lia. }
+      { exact Hnd'. }
+      { intros e He Hi. apply Hs1 in He. destruct He as [->|He].
+        - cbn [fst] in Hi. contradiction.
+        - apply (Hf e He). right. exact Hi. }
+      split; [exact W2|]. split; [rewrite Hn2, Hn1; cbn [length]; lia|]. split; [congruence|].
+      intro e. rewrite Hs2, Hs1, Hn1. rewrite (next_num_small _ Hl1). cbn [In]. split.
       + intros [H|[H|H]]; [left; right; exact H | left; left; symmetry; exact H | right; exact H].
       + intros [[H|H]|H]; [right; left; symmetry; exact H | left; exact H | right; right; exact H].
   Qed.
 
-  Lemma view_addrs_IP : forall d gs, IP d -> view_addrs bias d gs = map Rel (map (N.add bias) gs).
+  (** ** start / exit / restart: the registry is re-keyed, its entries stay *)
+  Lemma en_insert_In : forall a n l e, In e (en_insert a n l) <-> e = (a, n) \/ (In e l /\ fst e <> a).
+  Proof. intros a n l e. unfold en_insert. cbn [In]. rewrite en_remove_In. split; intros [H|H]; auto. Qed.
+  Lemma dis_insert_In : forall k n l e, In e (dis_insert k n l) <-> e = (k, n) \/ (In e l /\ fst e <> k).
+  Proof. intros k n l e. unfold dis_insert. cbn [In]. rewrite dis_remove_In. split; intros [H|H]; auto. Qed.
+
+  Lemma enable_list_sem : forall l en,
+    (forall a n, In (Rel a, n) l -> valid va bias a = true) ->
+    (forall e e', In e l -> In e' l -> loc (fst e) = loc (fst e') -> snd e = snd e') ->
+    (forall e e', In e l -> In e' en -> loc (fst e) = fst e' -> snd e = snd e') ->
+    forall x, In x (enable_list va bias l en) <-> In x en \/ In x (dis_ents l).
   Proof.
-    intros d gs Hd. unfold view_addrs. rewrite (IP_in_progress d Hd). rewrite map_map. reflexivity.
+    induction l as [|[k n] t IH]; intros en Hv Hl Hc x.
+    - cbn [enable_list dis_ents map In]. tauto.
+    - assert (Hstep : enable_list va bias ((k, n) :: t) en = enable_list va bias t (en_insert (loc k) n en)).
+      { cbn [enable_list]. destruct k as [a|g]; [|reflexivity]. cbn [dis_loc].
+        rewrite (Hv a n (or_introl eq_refl)). reflexivity. }
+      rewrite Hstep. rewrite IH.
+      + cbn [dis_ents map In fst snd]. rewrite en_insert_In. split.
+        * intros [[H|[H _]]|H]; [right; left; symmetry; exact H | left; exact H | right; right; exact H].
+        * intros [H|[H|H]]; [|left; left; symmetry; exact H | right; exact H].
+          destruct x as [xa xn]. destruct (N.eq_dec xa (loc k)) as [E|E].
+          -- left. left. subst xa. f_equal. symmetry. apply (Hc (k, n) (loc k, xn)); [left; reflexivity | exact H | reflexivity].
+          -- left. right. split; [exact H | exact E].
+      + intros a m Hi. apply (Hv a m). right; exact Hi.
+      + intros e e' H1 H2. apply Hl; right; assumption.
+      + intros e e' H1 H2 E. apply en_insert_In in H2. destruct H2 as [->|[H2 _]].
+        * cbn [fst snd] in *. apply (Hl e (k, n)); [right; exact H1 | left; reflexivity | exact E].
+        * apply (Hc e e'); [right; exact H1 | exact H2 | exact E].
   Qed.
 
-  Lemma first_only_single : forall l : list addr, (length l <= 1)%nat -> first_only l = l.
-  Proof. intros [|x [|y t]] H; cbn in *; try reflexivity; lia. Qed.
-
-  Lemma set_lines_IP : forall src bps d id d2 rs, IP d ->
-    set_lines rl bias src bps d id = (d2, rs) ->
-    IP d2 /\
-    (forall x, In x (en_keys d2) <-> In x (flat_map (line_locs rl bias src) bps) \/ In x (en_keys d)) /\
-    (forallb (fun b => N.of_nat (length (rl src (fst b))) <=? 1) bps = true ->
-       flat_map r_addrs rs = map Rel (flat_map (line_locs rl bias src) bps)).
+  Lemma enable_all_sem : forall d, WF d -> d_phase d <> InProgress -> kf (ents d) ->
+    WF (enable_all va bias d) /\ d_num (enable_all va bias d) = d_num d /\
+    d_phase (enable_all va bias d) = InProgress /\
+    forall e, In e (ents (enable_all va bias d)) <-> In e (ents d).
   Proof.
-    induction bps as [|[line o] t IH]; intros d id d2 rs Hd Hs; cbn [set_lines] in Hs.
-    - inversion Hs; subst. split; [exact Hd|]. split.
-      + intro x; cbn [flat_map In]. split; [intro H; right; exact H | intros [[]|H]; exact H].
+    intros d W Hp Hk. pose proof W as [Wip Wnip Wke Wne Wkd Wnd Wlt Wv]. pose proof (Wnip Hp) as Hen.
+    assert (Hents : ents d = dis_ents (d_dis d)) by (unfold ents; rewrite Hen; reflexivity).
+    assert (Hin : forall e, In e (d_dis d) -> In (loc (fst e), snd e) (dis_ents (d_dis d))).
+    { intros e He. apply in_dis_ents. exists (fst e). cbn [fst snd]. split; [destruct e; exact He | reflexivity]. }
+    assert (Hsem : forall x, In x (enable_list va bias (d_dis d) (d_en d)) <-> In x (dis_ents (d_dis d))).
+    { intro x. rewrite enable_list_sem.
+      - rewrite Hen. cbn [In]. tauto.
+      - exact Wv.
+      - intros e e' H1 H2 E. rewrite Hents in Hk.
+        apply (Hk (loc (fst e), snd e) (loc (fst e'), snd e') (Hin _ H1) (Hin _ H2) E).
+      - rewrite Hen. intros e e' _ []. }
+    split; [|split; [reflexivity|split; [reflexivity|]]].
+    - constructor; cbn [enable_all d_phase d_en d_dis d_num].
       + reflexivity.
-    - destruct (set_lines rl bias src t (add_places bias (rl src line) d) (id + 1)) as [d3 rs3] eqn:E.
-      inversion Hs; subst d2 rs. clear Hs.
-      destruct (add_places_IP (rl src line) d Hd) as [H1 H2].
-      destruct (IH _ _ _ _ H1 E) as [H3 [H4 H5]].
-      split; [exact H3|]. split.
-      + intro x. rewrite H4, H2. cbn [flat_map]. rewrite in_app_iff. unfold line_locs at 2. cbn [fst]. tauto.
-      + intro Hg. cbn [forallb fst] in Hg. apply andb_true_iff in Hg. destruct Hg as [Hg1 Hg2].
-        cbn [flat_map]. unfold new_rec at 1. cbn [r_addrs]. rewrite (H5 Hg2).
-        rewrite map_app. f_equal. rewrite (view_addrs_IP d _ Hd).
-        unfold line_locs. cbn [fst]. apply first_only_single. rewrite !map_length.
-        apply N.leb_le in Hg1. lia.
+      + intro H; exfalso; apply H; reflexivity.
+      + intros e e' H1 H2. apply Hsem in H1. apply Hsem in H2. rewrite Hents in Hk. apply Hk; assumption.
+      + intros e e' H1 H2 E. apply Hsem in H1. apply Hsem in H2.
+        apply in_dis_ents in H1. apply in_dis_ents in H2.
+        destruct H1 as [k1 [Hk1 Hx1]]. destruct H2 as [k2 [Hk2 Hx2]].
+        rewrite Hx1, Hx2. f_equal. rewrite E in Hk1. apply (Wnd (k1, snd e') (k2, snd e') Hk1 Hk2). reflexivity.
+      + intros e e' [].
+      + intros e e' [].
+      + intros e He. apply Wlt. unfold ents in He. cbn [enable_all d_en d_dis dis_ents map] in He.
+        rewrite app_nil_r in He. apply Hsem in He. rewrite Hents. exact He.
+      + intros a n [].
+    - intro e. unfold ents at 1. cbn [enable_all d_en d_dis dis_ents map]. rewrite app_nil_r, Hsem, Hents. tauto.
   Qed.
 
-  Lemma set_fns_IP : forall bps d id d2 rs, IP d ->
-    set_fns rf bias bps d id = (d2, rs) ->
-    IP d2 /\
-    (forall x, In x (en_keys d2) <-> In x (flat_map (fn_locs rf bias) bps) \/ In x (en_keys d)) /\
-    flat_map r_addrs rs = map Rel (flat_map (fn_locs rf bias) bps).
+  Lemma disable_list_sem : forall l dis,
+    (forall e e', In e l -> In e' dis -> Glob (fst e - bias) = fst e' -> snd e = snd e') ->
+    (forall e e', In e l -> In e' l -> fst e - bias = fst e' - bias -> snd e = snd e') ->
+    forall x, In x (disable_list bias l dis) <-> In x dis \/ exists e, In e l /\ x = (Glob (fst e - bias), snd e).
   Proof.
-    induction bps as [|[name o] t IH]; intros d id d2 rs Hd Hs; cbn [set_fns] in Hs.
-    - inversion Hs; subst. split; [exact Hd|]. split.
-      + intro x; cbn [flat_map In]. split; [intro H; right; exact H | intros [[]|H]; exact H].
+    induction l as [|[a n] t IH]; intros dis Hc Hl x; cbn [disable_list].
+    - cbn [In]. split; [intro H; left; exact H | intros [H|[e [[] _]]]; exact H].
+    - rewrite IH.
+      + rewrite dis_insert_In. split.
+        * intros [[H|[H _]]|[e [He Hx]]].
+          -- right. exists (a, n). split; [left; reflexivity | exact H].
+          -- left; exact H.
+          -- right. exists e. split; [right; exact He | exact Hx].
+        * intros [H|[e [[He|He] Hx]]].
+          -- destruct x as [xk xn]. destruct (addr_eq_dec xk (Glob (a - bias))) as [E|E].
+             ++ left. left. subst xk. f_equal. symmetry.
+                apply (Hc (a, n) (Glob (a - bias), xn)); [left; reflexivity | exact H | reflexivity].
+             ++ left. right. split; [exact H | exact E].
+          -- subst e. left. left. exact Hx.
+          -- right. exists e. split; [exact He | exact Hx].
+      + intros e e' H1 H2 E. apply dis_insert_In in H2. destruct H2 as [->|[H2 _]].
+        * cbn [fst snd] in *. inversion E as [E']. apply (Hl e (a, n)); [right; exact H1 | left; reflexivity | exact E'].
+        * apply (Hc e e'); [right; exact H1 | exact H2 | exact E].
+      + intros e e' H1 H2. apply Hl; right; assumption.
+  Qed.
+
+  Lemma disable_all_sem : forall d p, WF d -> d_phase d = InProgress -> p <> InProgress ->
+    (forall e, In e (d_en d) -> bias <= fst e) ->
+    WF (disable_all bias d p) /\ d_num (disable_all bias d p) = d_num d /\
+    d_phase (disable_all bias d p) = p /\
+    forall e, In e (ents (disable_all bias d p)) <-> In e (ents d).
+  Proof.
+    intros d p W Hp Hpn Hge. pose proof W as [Wip Wnip Wke Wne Wkd Wnd Wlt Wv]. pose proof (Wip Hp) as Hdis.
+    assert (Hents : ents d = d_en d) by (unfold ents; rewrite Hdis; cbn [dis_ents map]; apply app_nil_r).
+    assert (Hsem : forall x, In x (disable_list bias (d_en d) (d_dis d)) <->
+                             exists e, In e (d_en d) /\ x = (Glob (fst e - bias), snd e)).
+    { intro x. rewrite disable_list_sem.
+      - rewrite Hdis. cbn [In]. tauto.
+      - rewrite Hdis. intros e e' _ [].
+      - intros e e' H1 H2 E. apply Wke; auto. pose proof (Hge _ H1). pose proof (Hge _ H2). lia. }
+    split; [|split; [reflexivity|split; [reflexivity|]]].
+    - constructor; cbn [disable_all d_phase d_en d_dis d_num].
+      + intro H; contradiction.
       + reflexivity.
-    - set (gs := match name with Some f => rf f | None => [] end) in *.
-      destruct (set_fns rf bias t (add_places bias gs d) (id + 1)) as [d3 rs3] eqn:E.
-      inversion Hs; subst d2 rs. clear Hs.
-      destruct (add_places_IP gs d Hd) as [H1 H2].
-      destruct (IH _ _ _ _ H1 E) as [H3 [H4 H5]].
-      assert (Hl : fn_locs rf bias (name, o) = map (N.add bias) gs).
-      { unfold fn_locs, gs. cbn [fst]. destruct name; reflexivity. }
-      split; [exact H3|]. split.
-      + intro x. rewrite H4, H2. cbn [flat_map]. rewrite in_app_iff, Hl. tauto.
-      + cbn [flat_map]. unfold new_rec at 1. cbn [r_addrs]. rewrite H5, map_app, Hl.
-        f_equal. apply view_addrs_IP; exact Hd.
+      + intros e e' []. + intros e e' [].
+      + intros e e' H1 H2 E. apply Hsem in H1. apply Hsem in H2.
+        destruct H1 as [e1 [H1 ->]]. destruct H2 as [e2 [H2 ->]]. cbn [fst snd] in *. inversion E as [E'].
+        apply Wke; auto. pose proof (Hge _ H1). pose proof (Hge _ H2). lia.
+      + intros e e' H1 H2 E. apply Hsem in H1. apply Hsem in H2.
+        destruct H1 as [e1 [H1 ->]]. destruct H2 as [e2 [H2 ->]]. cbn [fst snd] in *.
+        rewrite (Wne e1 e2 H1 H2 E). reflexivity.
+      + intros e He. unfold ents in He. cbn [disable_all d_en d_dis app] in He. apply in_dis_ents in He.
+        destruct He as [k [Hk _]]. apply Hsem in Hk. destruct Hk as [e1 [H1 E]]. inversion E as [[Ek En]].
+        rewrite En. apply Wlt. rewrite Hents. exact H1.
+      + intros a n He. apply Hsem in He. destruct He as [e1 [_ E]]. inversion E.
+    - intro e. unfold ents at 1. cbn [disable_all d_en d_dis app]. rewrite in_dis_ents, Hents. split.
+      + intros [k [Hk Hx]]. apply Hsem in Hk. destruct Hk as [e1 [H1 E]]. inversion E; subst k.
+        pose proof (Hge _ H1). destruct e as [x n], e1 as [a m]. cbn [fst snd dis_loc] in *. subst.
+        replace (bias + (a - bias)) with a by lia. exact H1.
+      + intro He. exists (Glob (fst e - bias)). split.
+        * apply Hsem. exists e. split; [exact He | reflexivity].
+        * pose proof (Hge _ He). cbn [dis_loc]. lia.
   Qed.
 
-  Lemma set_instrs_IP : forall bps d id d2 rs, IP d ->
-    set_instrs va bias bps d id = (d2, rs) ->
-    IP d2 /\
-    (forall x, In x (en_keys d2) <-> In x (flat_map (ins_locs va bias) bps) \/ In x (en_keys d)) /\
-    flat_map r_addrs rs = map Rel (flat_map (ins_locs va bias) bps).
-  Proof.
-    induction bps as [|[ref o] t IH]; intros d id d2 rs Hd Hs; cbn [set_instrs] in Hs.
-    - inversion Hs; subst. split; [exact Hd|]. split.
-      + intro x; cbn [flat_map In]. split; [intro H; right; exact H | intros [[]|H]; exact H].
-      + reflexivity.
-    - destruct (match ref with Some a => dbg_set_addr va bias d a | None => (d, []) end) as [d1 addrs] eqn:E1.
-      destruct (set_instrs va bias t d1 (id + 1)) as [d3 rs3] eqn:E.
-      inversion Hs; subst d2 rs. clear Hs.
-      assert (H12 : IP d1 /\ (forall x, In x (en_keys d1) <-> In x (ins_locs va bias (ref, o)) \/ In x (en_keys d))
-                    /\ addrs = map Rel (ins_locs va bias (ref, o))).
-      { unfold ins_locs. cbn [fst]. destruct ref as [a|].
-        - unfold dbg_set_addr in E1. rewrite (IP_in_progress d Hd) in E1.
-          destruct (valid va bias a); inversion E1; subst d1 addrs.
-          + destruct Hd as [Hp Hdis]. split; [split; assumption|]. split; [|reflexivity].
-            intro x. unfold en_keys. cbn [d_en]. rewrite en_insert_keys. cbn [In]. intuition.
-          + split; [exact Hd|]. split; [|reflexivity]. intro x. cbn [In]. tauto.
-        - inversion E1; subst. split; [exact Hd|]. split; [|reflexivity]. intro x. cbn [In]. tauto. }
-      destruct H12 as [H1 [H2 Ha]].
-      destruct (IH _ _ _ _ H1 E) as [H3 [H4 H5]].
-      split; [exact H3|]. split.
-      + intro x. rewrite H4, H2. cbn [flat_map]. rewrite in_app_iff. tauto.
-      + cbn [flat_map]. unfold new_rec at 1. cbn [r_addrs]. rewrite H5, map_app, Ha. reflexivity.
-  Qed.
+  (** ** the set loops *)
+  Definition optview : Type := (bool * option hitcond * bool)%type.
+  Definition recview (r : brec) : list N * nat * optview :=
+    (map loc (r_addrs r), length (r_nums r), (r_cond r, r_hit r, r_log r)).
+  Definition itemview (locs : list N) (o : opts) : list N * nat * optview :=
+    (locs, length locs, (o_cond o, parse_hit_opt (o_hit o), o_log o)).
+  Definition pairs (r : brec) : list (N * N) := combine (map loc (r_addrs r)) (r_nums r).
+  Definition pairs_of (rs : list brec) : list (N * N) := flat_map pairs rs.
 
-  (** ** exit / restart: disable_all and enable_all *)
-  Definition is_glob (k : addr) : Prop := exists g, k = Glob g.
+  Lemma pairs_of_cons : forall r rs, pairs_of (r :: rs) = pairs r ++ pairs_of rs.
+  Proof. reflexivity. Qed.
 
-  Lemma disable_list_keys : forall l dis k,
-    In k (map fst (disable_list bias l dis)) <->
-    In k (map fst dis) \/ exists a, In a (map fst l) /\ k = Glob (a - bias).
-  Proof.
-    induction l as [|[a n] t IH]; intros dis k; cbn [disable_list map fst In].
-    - split; [intro H; left; exact H | intros [H|[a [[] _]]]; exact H].
-    - rewrite IH, dis_insert_keys. split.
-      + intros [[H|H]|[b [Hb Hk]]].
-        * right. exists a. split; [left; reflexivity | exact H].
-        * left; exact H.
-        * right. exists b. split; [right; exact Hb | exact Hk].
-      + intros [H|[b [[Hb|Hb] Hk]]].
-        * left; right; exact H.
-        * subst b. left; left; exact Hk.
-        * right. exists b. split; assumption.
-  Qed.
-
-  Lemma disable_list_glob : forall l dis,
-    Forall is_glob (map fst dis) -> Forall is_glob (map fst (disable_list bias l dis)).
-  Proof.
-    induction l as [|[a n] t IH]; intros dis H; cbn [disable_list]; [exact H|].
-    apply IH. unfold dis_insert. cbn [map fst]. constructor; [eexists; reflexivity|].
-    rewrite Forall_forall in *. intros k Hk. apply dis_remove_keys in Hk. apply H. tauto.
-  Qed.
-
-  Lemma enable_list_keys : forall l en x,
-    Forall is_glob (map fst l) ->
-    (In x (map fst (enable_list va bias l en)) <->
-     In x (map fst en) \/ exists g, In (Glob g) (map fst l) /\ x = bias + g).
-  Proof.
-    induction l as [|[k n] t IH]; intros en x Hg.
-    - cbn [enable_list map fst In]. split; [intro H; left; exact H | intros [H|[g [[] _]]]; exact H].
-    - cbn [map fst] in Hg. apply Forall_cons_iff in Hg. destruct Hg as [[g0 Hk] Ht]. subst k.
-      cbn [enable_list map fst In].
-      rewrite (IH _ _ Ht), en_insert_keys. split.
-      + intros [[H|H]|[g [Hi Hx]]].
-        * right. exists g0. split; [left; reflexivity | exact H].
-        * left; exact H.
-        * right. exists g. split; [right; exact Hi | exact Hx].
-      + intros [H|[g [[Hi|Hi] Hx]]].
-        * left; right; exact H.
-        * inversion Hi; subst g. left; left; exact Hx.
-        * right. exists g. split; assumption.
-  Qed.
-
-  Definition regOK (d : dbg) (E : list N) : Prop :=
-    match d_phase d with
-    | InProgress => d_dis d = [] /\ forall x, In x (en_keys d) <-> In x E
-    | Exited => d_en d = [] /\ Forall is_glob (map fst (d_dis d)) /\
-                forall x, (exists g, In (Glob g) (map fst (d_dis d)) /\ x = bias + g) <-> In x E
-    | Unload => d_en d = [] /\ d_dis d = [] /\ E = []
+  Fixpoint set_places (items : list (list N * opts)) (d : dbg) (id : N) : dbg * list brec :=
+    match items with
+    | [] => (d, [])
+    | (gs, o) :: t =>
+        let r := new_rec id (view_addrs bias d gs) (nums_from (d_num d) (length gs)) o in
+        let '(d2, rs) := set_places t (add_places bias gs d) (id + 1) in
+        (d2, r :: rs)
     end.
+  Definition fn_gs (b : option N * opts) : list N := match fst b with Some f => rf f | None => [] end.
 
-  Lemma regOK_exit : forall d E, d_phase d = InProgress -> (forall x, In x E -> bias <= x) ->
-    regOK d E -> regOK (disable_all bias d Exited) E.
+  Lemma set_lines_places : forall src bps d id,
+    set_lines rl bias src bps d id = set_places (map (fun b => (rl src (fst b), snd b)) bps) d id.
   Proof.
-    intros d E Hp Hge H. unfold regOK in *. rewrite Hp in H. destruct H as [Hd Hk].
-    cbn [disable_all d_phase d_en d_dis]. split; [reflexivity|]. rewrite Hd. split.
-    - apply disable_list_glob. constructor.
-    - intro x. split.
-      + intros [g [Hi Hx]]. apply disable_list_keys in Hi. destruct Hi as [[]|[a [Ha Hg]]].
-        inversion Hg; subst g. apply Hk in Ha. pose proof (Hge _ Ha).
-        replace x with a by lia. exact Ha.
-      + intro Hx. exists (x - bias). split.
-        * apply disable_list_keys. right. exists x. split; [apply Hk; exact Hx | reflexivity].
-        * pose proof (Hge _ Hx). lia.
+    induction bps as [|[line o] t IH]; intros d id; cbn [set_lines set_places map fst snd]; [reflexivity|].
+    rewrite IH. reflexivity.
+  Qed.
+  Lemma set_fns_places : forall bps d id,
+    set_fns rf bias bps d id = set_places (map (fun b => (fn_gs b, snd b)) bps) d id.
+  Proof.
+    induction bps as [|[name o] t IH]; intros d id; cbn [set_fns set_places map fst snd]; [reflexivity|].
+    unfold fn_gs at 1 2 3. cbn [fst]. rewrite IH. reflexivity.
   Qed.
 
-  Lemma regOK_enable_exited : forall d E, d_phase d = Exited ->
-    regOK d E -> regOK (enable_all va bias d) E.
+  Lemma view_locs : forall d gs, map loc (view_addrs bias d gs) = map (N.add bias) gs.
+  Proof. intros d gs. unfold view_addrs. destruct (in_progress d); rewrite map_map; reflexivity. Qed.
+
+  Definition item_locs (it : list N * opts) : list N := map (N.add bias) (fst it).
+
+  Lemma in_combine_fst : forall (l : list N) (l' : list N) e, In e (combine l l') -> In (fst e) l.
+  Proof. intros l l' [x y] H. eapply in_combine_l; eauto. Qed.
+
+  Lemma set_places_sem : forall items d id d2 rs, WF d ->
+    d_num d + N.of_nat (length (flat_map fst items)) < lim32 ->
+    NoDup (flat_map item_locs items) ->
+    (forall e, In e (ents d) -> ~ In (fst e) (flat_map item_locs items)) ->
+    set_places items d id = (d2, rs) ->
+    WF d2 /\ d_num d2 = d_num d + N.of_nat (length (flat_map fst items)) /\ d_phase d2 = d_phase d /\
+    (forall e, In e (ents d2) <-> In e (pairs_of rs) \/ In e (ents d)) /\
+    map recview rs = map (fun it => itemview (item_locs it) (snd it)) items.
   Proof.
-    intros d E Hp H. unfold regOK in *. rewrite Hp in H. destruct H as [He [Hg Hk]].
-    cbn [enable_all d_phase d_dis]. split; [reflexivity|].
-    intro x. unfold en_keys. cbn [enable_all d_en]. rewrite (enable_list_keys _ _ _ Hg), He.
-    cbn [map In]. rewrite <- Hk. tauto.
+    induction items as [|[gs o] t IH]; intros d id d2 rs W Hl Hnd Hf Hs; cbn [set_places] in Hs.
+    - inversion Hs; subst. split; [exact W|]. split; [cbn; lia|]. split; [reflexivity|].
+      split; [intro e; cbn; tauto | reflexivity].
+    - destruct (set_places t (add_places bias gs d) (id + 1)) as [d3 rs3] eqn:E. inversion Hs; subst d2 rs. clear Hs.
+      cbn [flat_map fst] in Hl, Hnd, Hf. unfold item_locs at 1 in Hnd. unfold item_locs at 1 in Hf. cbn [fst] in Hnd, Hf.
+      rewrite app_length, Nat2N.inj_add in Hl.
+      destruct (add_places_sem gs d W) as [W1 [Hn1 [Hp1 Hs1]]].
+      { lia. }
+      { eapply NoDup_app_l; exact Hnd. }
+      { intros e He Hi. apply (Hf e He). apply in_or_app. left; exact Hi. }
+      destruct (IH (add_places bias gs d) (id + 1) d3 rs3 W1) as [W2 [Hn2 [Hp2 [Hs2 Hv2]]]].
+      { rewrite Hn1. lia. }
+      { eapply NoDup_app_r; exact Hnd. }
+      { intros e He Hi. apply Hs1 in He. destruct He as [He|He].
+        - apply in_combine_fst in He. exact (NoDup_app_disj _ _ _ _ Hnd He Hi).
+        - apply (Hf e He). apply in_or_app. right; exact Hi. }
+      { exact E. }
+      split; [exact W2|]. split; [rewrite Hn2, Hn1; cbn [flat_map fst]; rewrite app_length, Nat2N.inj_add; lia|].
+      split; [congruence|]. split.
+      + intro e. rewrite Hs2, Hs1. rewrite pairs_of_cons, in_app_iff.
+        unfold pairs, new_rec. cbn [r_addrs r_nums]. rewrite view_locs. tauto.
+      + cbn [map]. f_equal; [|exact Hv2].
+        unfold recview, itemview, new_rec, item_locs. cbn [r_addrs r_nums r_cond r_hit r_log fst snd].
+        rewrite view_locs, nums_from_length, map_length. reflexivity.
   Qed.
 
-  Lemma regOK_enable_unload : forall d E, d_phase d = Unload ->
-    regOK d E -> regOK (enable_all va bias d) E.
+  Definition ins_pre (b : option N * opts) : bool := match fst b with Some a => valid va bias a | None => true end.
+
+  Lemma set_instrs_sem : forall bps d id d2 rs, WF d ->
+    d_num d + N.of_nat (length bps) < lim32 ->
+    (d_phase d = InProgress \/ forallb ins_pre bps = true) ->
+    NoDup (flat_map (ins_locs va bias) bps) ->
+    (forall e, In e (ents d) -> ~ In (fst e) (flat_map (ins_locs va bias) bps)) ->
+    set_instrs va bias bps d id = (d2, rs) ->
+    WF d2 /\ d_num d2 <= d_num d + N.of_nat (length bps) /\ d_phase d2 = d_phase d /\
+    (forall e, In e (ents d2) <-> In e (pairs_of rs) \/ In e (ents d)) /\
+    map recview rs = map (fun b => itemview (ins_locs va bias b) (snd b)) bps.
   Proof.
-    intros d E Hp H. unfold regOK in *. rewrite Hp in H. destruct H as [He [Hd HE]].
-    cbn [enable_all d_phase d_dis]. split; [reflexivity|].
-    intro x. unfold en_keys. cbn [enable_all d_en]. rewrite Hd, He, HE. cbn. tauto.
+    induction bps as [|[ref o] t IH]; intros d id d2 rs W Hl Hpre Hnd Hf Hs; cbn [set_instrs] in Hs.
+    - inversion Hs; subst. split; [exact W|]. split; [cbn; lia|]. split; [reflexivity|].
+      split; [intro e; cbn; tauto | reflexivity].
+    - destruct (match ref with Some a => dbg_set_addr va bias d a | None => (d, []) end) as [d1 addrs] eqn:E1.
+      destruct (set_instrs va bias t d1 (id + 1)) as [d3 rs3] eqn:E. inversion Hs; subst d2 rs. clear Hs.
+      cbn [flat_map length] in Hl, Hnd, Hf. rewrite Nat2N.inj_succ in Hl.
+      assert (Hpre_t : forall d', d_phase d' = d_phase d -> d_phase d' = InProgress \/ forallb ins_pre t = true).
+      { intros d' Hd'. destruct Hpre as [Hp|Hp]; [left; congruence|right].
+        cbn [forallb] in Hp. apply andb_true_iff in Hp. tauto. }
+      (* what the head item did *)
+      assert (Hhead : WF d1 /\ d_num d1 <= d_num d + 1 /\ d_phase d1 = d_phase d /\
+                      (forall e, In e (ents d1) <-> In e (combine (ins_locs va bias (ref, o)) (match addrs with [] => [] | _ => [d_num d] end)) \/ In e (ents d)) /\
+                      map loc addrs = ins_locs va bias (ref, o)).
+      { unfold ins_locs. cbn [fst]. destruct ref as [a|].
+        - destruct (valid va bias a) eqn:V.
+          + destruct (set_addr_sem a d W) as [W1 [Hn1 [Hp1 [Ha1 Hs1]]]]; try exact V.
+            { lia. }
+            { intros e He E'. apply (Hf e He). apply in_or_app. left. unfold ins_locs. cbn [fst]. rewrite V. left. symmetry; exact E'. }
+            rewrite E1 in *. cbn [fst snd] in *. subst addrs.
+            split; [exact W1|]. split; [lia|]. split; [exact Hp1|]. split; [|reflexivity].
+            intro e. rewrite Hs1. cbn [combine In].
+            split; [intros [H|H]; [left; left; symmetry; exact H | right; exact H]
+                   | intros [[H|[]]|H]; [left; symmetry; exact H | right; exact H]].
+          + (* invalid: only possible while running, nothing is created *)
+            assert (Hp : d_phase d = InProgress).
+            { destruct Hpre as [Hp|Hp]; [exact Hp|]. cbn [forallb] in Hp. apply andb_true_iff in Hp.
+              destruct Hp as [Hp _]. unfold ins_pre in Hp. cbn [fst] in Hp. congruence. }
+            unfold dbg_set_addr in E1. rewrite (proj2 (in_progress_true d) Hp), V in E1. inversion E1; subst d1 addrs.
+            split; [exact W|]. split; [lia|]. split; [reflexivity|]. split; [|reflexivity].
+            intro e. cbn [combine In]. tauto.
+        - inversion E1; subst d1 addrs. split; [exact W|]. split; [lia|]. split; [reflexivity|]. split; [|reflexivity].
+          intro e. cbn [combine In]. tauto. }
+      destruct Hhead as [W1 [Hn1 [Hp1 [Hs1 Ha1]]]].
+      destruct (IH d1 (id + 1) d3 rs3 W1) as [W2 [Hn2 [Hp2 [Hs2 Hv2]]]].
+      { lia. }
+      { apply Hpre_t. exact Hp1. }
+      { eapply NoDup_app_r; exact Hnd. }
+      { intros e He Hi. apply Hs1 in He. destruct He as [He|He].
+        - apply in_combine_fst in He. exact (NoDup_app_disj _ _ _ _ Hnd He Hi).
+        - apply (Hf e He). apply in_or_app. right; exact Hi. }
+      { exact E. }
+      split; [exact W2|]. split; [cbn [length]; rewrite Nat2N.inj_succ; lia|]. split; [congruence|]. split.
+      + intro e. rewrite Hs2, Hs1. rewrite pairs_of_cons, in_app_iff.
+        unfold pairs, new_rec. cbn [r_addrs r_nums]. rewrite Ha1. tauto.
+      + cbn [map]. f_equal; [|exact Hv2].
+        unfold recview, itemview, new_rec. cbn [r_addrs r_nums r_cond r_hit r_log fst snd].
+        rewrite Ha1. f_equal. f_equal. rewrite <- Ha1. destruct addrs as [|x [|y l]]; cbn; try reflexivity.
+        (* more than one address never happens *)
+        exfalso. assert (Hlen : (length (ins_locs va bias (ref, o)) <= 1)%nat).
+        { unfold ins_locs. cbn [fst]. destruct ref; [destruct (valid va bias n)|]; cbn; lia. }
+        rewrite <- Ha1 in Hlen. cbn in Hlen. lia.
   Qed.
 
-  Lemma regOK_restart : forall d E, d_phase d = InProgress -> (forall x, In x E -> bias <= x) ->
-    regOK d E -> regOK (enable_all va bias (disable_all bias d Unload)) E.
+  (** ** association lists keyed by source *)
+  Section AL.
+    Context {V X : Type}.
+    Variable F : N -> V -> list X.
+    Definition AF (l : list (N * V)) : list X := flat_map (fun e => F (fst e) (snd e)) l.
+    Definition AG (src : N) (l : list (N * V)) : list X :=
+      match alist_get N.eqb l src with Some v => F src v | None => [] end.
+    Definition afilter (src : N) (l : list (N * V)) : list (N * V) :=
+      filter (fun e => negb (fst e =? src)) l.
+
+    Lemma afilter_notin : forall src l, ~ In src (map fst l) -> afilter src l = l.
+    Proof.
+      unfold afilter. induction l as [|[s0 b0] t IH]; intro H; cbn [filter fst]; [reflexivity|].
+      cbn [map fst In] in H. destruct (N.eqb_spec s0 src); [exfalso; apply H; left; assumption|].
+      cbn [negb]. f_equal. apply IH. intro Hi. apply H. right; exact Hi.
+    Qed.
+
+    Lemma AF_perm : forall src l, NoDup (map fst l) -> Permutation (AF l) (AG src l ++ AF (afilter src l)).
+    Proof.
+      induction l as [|[s0 b0] t IH]; intro Hn.
+      - cbn. constructor.
+      - cbn [map fst] in Hn. inversion Hn as [|? ? Hni Hnt]; subst.
+        unfold AG. cbn [alist_get]. unfold afilter. cbn [filter fst].
+        destruct (N.eqb_spec src s0) as [->|Hne].
+        + rewrite N.eqb_refl. cbn [negb]. fold (afilter s0 t). rewrite (afilter_notin s0 t Hni).
+          unfold AF. cbn [flat_map fst snd]. apply Permutation_refl.
+        + destruct (N.eqb_spec s0 src); [congruence|]. cbn [negb]. fold (afilter src t).
+          change (Permutation (F s0 b0 ++ AF t) (AG src t ++ F s0 b0 ++ AF (afilter src t))).
+          eapply Permutation_trans; [apply Permutation_app_head; apply (IH Hnt)|].
+          apply Permutation_app_swap_app.
+    Qed.
+
+    Lemma afilter_keys : forall src v l, NoDup (map fst l) -> NoDup (map fst ((src, v) :: afilter src l)).
+    Proof.
+      intros src v l H. cbn [map fst]. constructor.
+      - intro Hi. apply in_map_iff in Hi. destruct Hi as [e [He Hi]]. unfold afilter in Hi.
+        apply filter_In in Hi. destruct Hi as [_ Hi]. rewrite He, N.eqb_refl in Hi. discriminate.
+      - induction l as [|[s0 b0] t IH]; [constructor|].
+        cbn [map fst] in H. inversion H; subst. unfold afilter. cbn [filter fst].
+        destruct (negb (s0 =? src)); [|apply IH; assumption].
+        cbn [map fst]. constructor; [|apply IH; assumption].
+        intro Hi. apply in_map_iff in Hi. destruct Hi as [e [He Hi]]. apply filter_In in Hi.
+        apply H2. apply in_map_iff. exists e. tauto.
+    Qed.
+  End AL.
+
+  (* filtering by key commutes with key-preserving views *)
+  Lemma afilter_view : forall (V1 V2 W : Type) (f1 : N * V1 -> N * W) (f2 : N * V2 -> N * W) src l1 l2,
+    (forall e, fst (f1 e) = fst e) -> (forall e, fst (f2 e) = fst e) ->
+    map f1 l1 = map f2 l2 -> map f1 (afilter src l1) = map f2 (afilter src l2).
   Proof.
-    intros d E Hp Hge H.
-    pose proof (regOK_exit d E Hp Hge H) as H1.
-    pose proof (regOK_enable_exited (disable_all bias d Exited) E eq_refl H1) as H2.
-    exact H2.
+    intros V1 V2 W f1 f2 src. unfold afilter.
+    induction l1 as [|e1 t1 IH]; intros [|e2 t2] H1 H2 H; cbn [map] in H; try discriminate; [reflexivity|].
+    inversion H as [[He Ht]]. cbn [filter].
+    assert (Hk : fst e1 = fst e2) by (rewrite <- (H1 e1), <- (H2 e2), He; reflexivity).
+    rewrite Hk. destruct (negb (fst e2 =? src)); cbn [map]; [f_equal; [exact He|]|]; apply IH; assumption.
+  Qed.
+  Lemma alist_get_view : forall (V1 V2 W : Type) (g1 : N -> V1 -> W) (g2 : N -> V2 -> W) src l1 l2,
+    map (fun e => (fst e, g1 (fst e) (snd e))) l1 = map (fun e => (fst e, g2 (fst e) (snd e))) l2 ->
+    match alist_get N.eqb l1 src with Some v => Some (g1 src v) | None => None end =
+    match alist_get N.eqb l2 src with Some v => Some (g2 src v) | None => None end.
+  Proof.
+    intros V1 V2 W g1 g2 src.
+    induction l1 as [|[k1 v1] t1 IH]; intros [|[k2 v2] t2] H; cbn [map] in H; try discriminate; [reflexivity|].
+    inversion H as [[Hk Hv Ht]]. cbn [fst snd] in *. subst k2. cbn [alist_get].
+    destruct (N.eqb_spec src k1) as [->|_]; [rewrite Hv; reflexivity | apply IH; exact Ht].
   Qed.
 
-  Lemma regOK_locs : forall d E, regOK d E -> forall x, In x (reg_locs bias d) <-> In x E.
+  (** ** records against requested breakpoints *)
+  Lemma map_fst_combine : forall (A B : Type) (l : list A) (l' : list B),
+    length l = length l' -> map fst (combine l l') = l.
   Proof.
-    intros d E H x. unfold regOK in H. unfold reg_locs. rewrite in_app_iff.
-    destruct (d_phase d).
-    - destruct H as [He [Hd HE]]. rewrite He, Hd, HE. cbn. tauto.
-    - destruct H as [Hd Hk]. rewrite Hd. cbn [map In]. rewrite <- Hk. unfold en_keys. tauto.
-    - destruct H as [He [Hg Hk]]. rewrite He. cbn [map In]. rewrite <- Hk. split.
-      + intros [[]|H]. apply in_map_iff in H. destruct H as [e [Hx Hi]].
-        assert (Hin : In (fst e) (map fst (d_dis d))) by (apply in_map; exact Hi).
-        rewrite Forall_forall in Hg. destruct (Hg _ Hin) as [g Hgk].
-        exists g. split; [rewrite <- Hgk; exact Hin|]. rewrite Hgk in Hx. cbn [dis_loc] in Hx. auto.
-      + intros [g [Hi Hx]]. right. apply in_map_iff in Hi. destruct Hi as [e [He' Hi]].
-        apply in_map_iff. exists e. split; [|exact Hi]. rewrite He'. cbn [dis_loc]. auto.
+    induction l as [|x t IH]; intros [|y t'] H; cbn in *; try reflexivity; try discriminate.
+    f_equal. apply IH. lia.
+  Qed.
+  Lemma map_snd_combine : forall (A B : Type) (l : list A) (l' : list B),
+    length l = length l' -> map snd (combine l l') = l'.
+  Proof.
+    induction l as [|x t IH]; intros [|y t'] H; cbn in *; try reflexivity; try discriminate.
+    f_equal. apply IH. lia.
   Qed.
 
-  (** ** per-source bookkeeping *)
-  Definition srcA (e : N * list brec) : N * list addr := (fst e, flat_map r_addrs (snd e)).
-  Definition srcE (pe : N * list (N * opts)) : N * list addr :=
-    (fst pe, map Rel (flat_map (line_locs rl bias (fst pe)) (snd pe))).
+  Lemma cons_eq_inv : forall (A : Type) (x y : A) l l', x :: l = y :: l' -> x = y /\ l = l'.
+  Proof. intros A x y l l' H. inversion H. split; reflexivity. Qed.
+
+  Lemma view_pairs : forall r locs o, recview r = itemview locs o ->
+    map fst (pairs r) = locs /\ map snd (pairs r) = r_nums r.
+  Proof.
+    intros r locs o H. unfold recview, itemview in H. inversion H as [[Hl Hn Hc Hh Hlg]].
+    unfold pairs.
+    split; [apply map_fst_combine | apply map_snd_combine]; symmetry; exact Hn.
+  Qed.
+
+  Lemma views_pairs : forall (I : Type) (L : I -> list N) (O : I -> opts) rs items,
+    map recview rs = map (fun it => itemview (L it) (O it)) items ->
+    map fst (pairs_of rs) = flat_map L items /\ map snd (pairs_of rs) = flat_map r_nums rs.
+  Proof.
+    intros I L O. induction rs as [|r t IH]; intros [|it items] H; cbn [map] in H; try discriminate.
+    - split; reflexivity.
+    - apply cons_eq_inv in H. destruct H as [Hr Ht].
+      destruct (IH _ Ht) as [H1 H2]. destruct (view_pairs _ _ _ Hr) as [H3 H4].
+      rewrite pairs_of_cons, !map_app. cbn [flat_map]. rewrite H1, H2, H3, H4. split; reflexivity.
+  Qed.
+
+  Definition src_recs_view (e : N * list brec) : N * list (list N * nat * optview) :=
+    (fst e, map recview (snd e)).
+  Definition src_spec_view (pe : N * list (N * opts)) : N * list (list N * nat * optview) :=
+    (fst pe, map (fun b => itemview (line_locs rl bias (fst pe) b) (snd b)) (snd pe)).
+  Definition Psrc (l : list (N * list brec)) : list (N * N) := AF (fun _ rs => pairs_of rs) l.
   Definition Fsrc (l : list (N * list (N * opts))) : list N :=
-    flat_map (fun e => flat_map (line_locs rl bias (fst e)) (snd e)) l.
-  Definition Gsrc (src : N) (l : list (N * list (N * opts))) : list N :=
-    match alist_get N.eqb l src with Some bps => flat_map (line_locs rl bias src) bps | None => [] end.
-  Definition pfilter (src : N) (l : list (N * list (N * opts))) :=
-    filter (fun e => negb (fst e =? src)) l.
+    AF (fun src bps => flat_map (line_locs rl bias src) bps) l.
+  Definition all_pairs (s : sess) : list (N * N) := Psrc (s_src s) ++ pairs_of (s_fn s) ++ pairs_of (s_ins s).
 
-  Lemma src_get_corr : forall src ls lp, map srcA ls = map srcE lp ->
-    flat_map r_addrs (src_get src ls) = map Rel (Gsrc src lp).
+  Notation EXP := (expected_locs rl rf va bias).
+  Lemma EXP_unfold : forall p, EXP p = Fsrc (p_src p) ++ flat_map (fn_locs rf bias) (p_fn p) ++ flat_map (ins_locs va bias) (p_ins p).
+  Proof. reflexivity. Qed.
+
+  Lemma src_views_locs : forall ls lp, map src_recs_view ls = map src_spec_view lp ->
+    map fst (Psrc ls) = Fsrc lp.
   Proof.
-    unfold src_get, Gsrc.
-    induction ls as [|[s0 rs0] t IH]; intros [|[s1 b1] lp] H; cbn [map] in H; try discriminate.
-    - reflexivity.
-    - inversion H as [[Hs Ha Ht]]. cbn [fst snd] in *. subst s1. cbn [alist_get].
-      destruct (src =? s0) eqn:E.
-      + apply N.eqb_eq in E. subst s0. exact Ha.
-      + apply IH. exact Ht.
+    induction ls as [|[s0 rs0] t IH]; intros [|[s1 b1] lp] H; cbn [map] in H; try discriminate; [reflexivity|].
+    inversion H as [[Hs Hv Ht]]. cbn [fst snd] in *. subst s1.
+    unfold Psrc, Fsrc, AF. cbn [flat_map fst snd]. rewrite map_app. f_equal.
+    - exact (proj1 (views_pairs _ _ _ _ _ Hv)).
+    - apply IH. exact Ht.
   Qed.
 
-  Lemma src_remove_corr : forall src ls lp, map srcA ls = map srcE lp ->
-    map srcA (src_remove src ls) = map srcE (pfilter src lp).
+  Lemma src_get_views : forall src ls lp, map src_recs_view ls = map src_spec_view lp ->
+    map recview (src_get src ls) =
+    map (fun b => itemview (line_locs rl bias src b) (snd b))
+        (match alist_get N.eqb lp src with Some bps => bps | None => [] end).
   Proof.
-    unfold src_remove, pfilter.
-    induction ls as [|[s0 rs0] t IH]; intros [|[s1 b1] lp] H; cbn [map] in H; try discriminate.
-    - reflexivity.
-    - inversion H as [[Hs Ha Ht]]. cbn [fst snd] in *. subst s1. cbn [filter fst].
-      destruct (negb (s0 =? src)); cbn [map]; [f_equal; [unfold srcA, srcE; cbn [fst snd]; f_equal; exact Ha|]|]; apply IH; exact Ht.
-  Qed.
-
-  Lemma pfilter_notin : forall src l, ~ In src (map fst l) -> pfilter src l = l.
-  Proof.
-    unfold pfilter. induction l as [|[s0 b0] t IH]; intro H; cbn [filter fst]; [reflexivity|].
-    cbn [map fst In] in H. destruct (N.eqb_spec s0 src); [exfalso; apply H; left; assumption|].
-    cbn [negb]. f_equal. apply IH. intro Hi. apply H. right; exact Hi.
-  Qed.
-
-  Lemma Fsrc_split : forall src l x, NoDup (map fst l) ->
-    (In x (Fsrc l) <-> In x (Fsrc (pfilter src l)) \/ In x (Gsrc src l)).
-  Proof.
-    induction l as [|[s0 b0] t IH]; intros x Hn.
-    - cbn. tauto.
-    - cbn [map fst] in Hn. inversion Hn as [|? ? Hni Hnt]; subst.
-      unfold Gsrc. cbn [alist_get]. destruct (N.eqb_spec src s0) as [->|Hne].
-      + unfold pfilter. cbn [filter fst]. rewrite N.eqb_refl. cbn [negb].
-        fold (pfilter s0 t). rewrite (pfilter_notin s0 t Hni).
-        unfold Fsrc at 1. cbn [flat_map fst snd]. rewrite in_app_iff. fold (Fsrc t). tauto.
-      + unfold pfilter. cbn [filter fst]. destruct (N.eqb_spec s0 src); [congruence|]. cbn [negb].
-        fold (pfilter src t). unfold Fsrc at 1 2. cbn [flat_map fst snd]. rewrite !in_app_iff.
-        fold (Fsrc t) (Fsrc (pfilter src t)). rewrite (IH x Hnt). unfold Gsrc. tauto.
-  Qed.
-
-  Lemma Fsrc_disj : forall src l x, NoDup (map fst l) -> NoDup (Fsrc l) ->
-    In x (Gsrc src l) -> In x (Fsrc (pfilter src l)) -> False.
-  Proof.
-    induction l as [|[s0 b0] t IH]; intros x Hn Hd Hg Hf.
-    - exact Hg.
-    - cbn [map fst] in Hn. inversion Hn as [|? ? Hni Hnt]; subst.
-      unfold Fsrc in Hd. cbn [flat_map fst snd] in Hd. fold (Fsrc t) in Hd.
-      unfold Gsrc in Hg. cbn [alist_get] in Hg. unfold pfilter in Hf. cbn [filter fst] in Hf.
-      destruct (N.eqb_spec src s0) as [->|Hne].
-      + rewrite N.eqb_refl in Hf. cbn [negb] in Hf. fold (pfilter s0 t) in Hf.
-        rewrite (pfilter_notin s0 t Hni) in Hf. exact (NoDup_app_disj _ _ _ _ Hd Hg Hf).
-      + destruct (N.eqb_spec s0 src); [congruence|]. cbn [negb] in Hf. fold (pfilter src t) in Hf.
-        unfold Fsrc in Hf. cbn [flat_map fst snd] in Hf. fold (Fsrc (pfilter src t)) in Hf.
-        apply in_app_iff in Hf. fold (Gsrc src t) in Hg. destruct Hf as [Hf|Hf].
-        * apply (NoDup_app_disj _ _ _ _ Hd Hf). apply (Fsrc_split src t x Hnt). right; exact Hg.
-        * exact (IH x Hnt (NoDup_app_r _ _ _ Hd) Hg Hf).
-  Qed.
-
-  Lemma pfilter_keys : forall src bps l, NoDup (map fst l) ->
-    NoDup (map fst ((src, bps) :: pfilter src l)).
-  Proof.
-    intros src bps l H. cbn [map fst]. constructor.
-    - intro Hi. apply in_map_iff in Hi. destruct Hi as [e [He Hi]]. unfold pfilter in Hi.
-      apply filter_In in Hi. destruct Hi as [_ Hi]. rewrite He, N.eqb_refl in Hi. discriminate.
-    - induction l as [|[s0 b0] t IH]; [constructor|].
-      cbn [map fst] in H. inversion H; subst. unfold pfilter. cbn [filter fst].
-      destruct (negb (s0 =? src)); [|apply IH; assumption].
-      cbn [map fst]. constructor; [|apply IH; assumption].
-      intro Hi. apply in_map_iff in Hi. destruct Hi as [e [He Hi]]. apply filter_In in Hi.
-      apply H2. apply in_map_iff. exists e. tauto.
+    intros src ls lp H. unfold src_get.
+    pose proof (alist_get_view _ _ _ (fun _ rs => map recview rs)
+                  (fun s bps => map (fun b => itemview (line_locs rl bias s b) (snd b)) bps) src ls lp H) as Hg.
+    destruct (alist_get N.eqb ls src); destruct (alist_get N.eqb lp src); inversion Hg; reflexivity.
   Qed.
 
   (** ** the invariant *)
-  Notation EXP := (expected_locs rl rf va bias).
-
-  Record Inv (s : sess) (p : spec_st) : Prop := mk_Inv {
-    i_src : map srcA (s_src s) = map srcE (p_src p);
-    i_fn : flat_map r_addrs (s_fn s) = map Rel (flat_map (fn_locs rf bias) (p_fn p));
-    i_ins : flat_map r_addrs (s_ins s) = map Rel (flat_map (ins_locs va bias) (p_ins p));
+  Record Inv (s : sess) (p : spec_st) (n : N) : Prop := mk_Inv {
+    i_wf : WF (s_dbg s);
+    i_num : d_num (s_dbg s) <= n;
+    i_src : map src_recs_view (s_src s) = map src_spec_view (p_src p);
+    i_fn : map recview (s_fn s) = map (fun b => itemview (fn_locs rf bias b) (snd b)) (p_fn p);
+    i_ins : map recview (s_ins s) = map (fun b => itemview (ins_locs va bias b) (snd b)) (p_ins p);
     i_nd : NoDup (EXP p);
     i_keys : NoDup (map fst (p_src p));
-    i_reg : regOK (s_dbg s) (EXP p)
+    i_link : forall e, In e (ents (s_dbg s)) <-> In e (all_pairs s)
   }.
 
-  Lemma EXP_unfold : forall p, EXP p = Fsrc (p_src p) ++ flat_map (fn_locs rf bias) (p_fn p) ++ flat_map (ins_locs va bias) (p_ins p).
-  Proof. reflexivity. Qed.
+  Lemma all_pairs_locs : forall s p n, Inv s p n -> map fst (all_pairs s) = EXP p.
+  Proof.
+    intros s p n [_ _ Is If Ii _ _ _]. unfold all_pairs. rewrite !map_app, EXP_unfold.
+    rewrite (src_views_locs _ _ Is), (proj1 (views_pairs _ _ _ _ _ If)), (proj1 (views_pairs _ _ _ _ _ Ii)).
+    reflexivity.
+  Qed.
+
+  Lemma ents_nf : forall d, WF d -> nf (ents d).
+  Proof.
+    intros d W e e' H1 H2 E. pose proof W as [Wip Wnip Wke Wne Wkd Wnd _ _].
+    destruct (phase_dec (d_phase d)) as [Hp|Hp].
+    - unfold ents in *. rewrite (Wip Hp) in *. cbn [dis_ents map] in *. rewrite app_nil_r in *. apply Wne; assumption.
+    - unfold ents in *. rewrite (Wnip Hp) in *. cbn [app] in *.
+      apply in_dis_ents in H1. apply in_dis_ents in H2. destruct H1 as [k1 [H1 X1]]. destruct H2 as [k2 [H2 X2]].
+      rewrite X1, X2. f_equal. rewrite E in H1. apply (Wnd (k1, snd e') (k2, snd e') H1 H2). reflexivity.
+  Qed.
+
+  (* removing the numbers of one group of pairs leaves exactly the other group *)
+  Lemma remove_group : forall d PK PO, WF d ->
+    (forall e, In e (ents d) <-> In e (PK ++ PO)) -> NoDup (map fst (PK ++ PO)) ->
+    let d' := remove_nums (map snd PK) d in
+    WF d' /\ d_num d' = d_num d /\ d_phase d' = d_phase d /\ forall e, In e (ents d') <-> In e PO.
+  Proof.
+    intros d PK PO W Hl Hnd. destruct (remove_nums_sem (map snd PK) d W) as [W1 [Hn1 [Hp1 Hs1]]].
+    split; [exact W1|]. split; [exact Hn1|]. split; [exact Hp1|].
+    intro e. rewrite Hs1, Hl, in_app_iff. split.
+    - intros [[H|H] Hn]; [exfalso; apply Hn; apply in_map; exact H | exact H].
+    - intro H. split; [right; exact H|]. intro Hn. apply in_map_iff in Hn. destruct Hn as [e' [E He']].
+      assert (Hf : fst e' = fst e).
+      { apply (ents_nf d W); [apply Hl; apply in_or_app; left; exact He' | apply Hl; apply in_or_app; right; exact H | exact E]. }
+      rewrite map_app in Hnd. apply (NoDup_app_disj _ _ _ (fst e) Hnd); [rewrite <- Hf|]; apply in_map; assumption.
+  Qed.
+
+  (** ** each request preserves the invariant *)
+  Lemma flat_map_map : forall (A B C : Type) (f : A -> B) (g : B -> list C) l,
+    flat_map g (map f l) = flat_map (fun x => g (f x)) l.
+  Proof. induction l as [|x t IH]; cbn [map flat_map]; [reflexivity | rewrite IH; reflexivity]. Qed.
+
+  Lemma NoDup_fst_fun : forall (l : list (N * N)) e e', NoDup (map fst l) -> In e l -> In e' l -> fst e = fst e' -> e = e'.
+  Proof.
+    induction l as [|x t IH]; intros e e' Hn H1 H2 E; [inversion H1|].
+    cbn [map] in Hn. inversion Hn as [|? ? Hni Hnt]; subst. destruct H1 as [->|H1]; destruct H2 as [->|H2].
+    - reflexivity.
+    - exfalso. apply Hni. rewrite E. apply in_map; exact H2.
+    - exfalso. apply Hni. rewrite <- E. apply in_map; exact H1.
+    - apply IH; assumption.
+  Qed.
 
   Lemma EXP_ge_bias : forall p x, In x (EXP p) -> bias <= x.
   Proof.
     intros p x H. rewrite EXP_unfold in H. rewrite !in_app_iff in H. destruct H as [H|[H|H]].
-    - unfold Fsrc in H. apply in_flat_map in H. destruct H as [e [_ H]].
+    - unfold Fsrc, AF in H. apply in_flat_map in H. destruct H as [e [_ H]].
       apply in_flat_map in H. destruct H as [b [_ H]]. unfold line_locs in H.
       apply in_map_iff in H. destruct H as [g [Hg _]]. lia.
     - apply in_flat_map in H. destruct H as [b [_ H]]. unfold fn_locs in H.
@@ -475,116 +879,182 @@ Section Inv.
       apply N.leb_le in V. exact V.
   Qed.
 
-  Lemma In_map_Rel : forall x l, In (Rel x) (map Rel l) <-> In x l.
+  Lemma views_keys : forall ls lp, map src_recs_view ls = map src_spec_view lp -> map fst ls = map fst lp.
   Proof.
-    intros x l. rewrite in_map_iff. split.
-    - intros [y [Hy Hi]]. inversion Hy; subst. exact Hi.
-    - intro H. exists x. split; [reflexivity | exact H].
+    intros ls lp H. apply (f_equal (map fst)) in H. rewrite !map_map in H. exact H.
   Qed.
 
-  Lemma remove_prev : forall prev K d, IP d -> flat_map r_addrs prev = map Rel K ->
-    IP (remove_records prev d) /\
-    forall x, In x (en_keys (remove_records prev d)) <-> In x (en_keys d) /\ ~ In x K.
+  (* what every breakpoint-setting step has in common, after the old group PK was located *)
+  Lemma link_perm : forall s p n PK PO, Inv s p n -> Permutation (all_pairs s) (PK ++ PO) ->
+    (forall e, In e (ents (s_dbg s)) <-> In e (PK ++ PO)) /\ NoDup (map fst (PK ++ PO)).
   Proof.
-    intros prev K d Hd HK. rewrite remove_records_flat, HK.
-    destruct (remove_addrs_IP (map Rel K) d Hd) as [H1 H2]. split; [exact H1|].
-    intro x. rewrite H2, In_map_Rel. tauto.
+    intros s p n PK PO HI Hperm. split.
+    - intro e. rewrite (i_link _ _ _ HI). split; intro H; [eapply Permutation_in; eauto | eapply Permutation_in; [apply Permutation_sym; exact Hperm | exact H]].
+    - eapply Permutation_NoDup; [apply Permutation_map; exact Hperm|]. rewrite (all_pairs_locs _ _ _ HI). apply (i_nd _ _ _ HI).
   Qed.
 
-  Lemma regOK_IP : forall d E, d_phase d = InProgress -> regOK d E -> IP d /\ forall x, In x (en_keys d) <-> In x E.
-  Proof. intros d E Hp H. unfold regOK in H. rewrite Hp in H. destruct H as [H1 H2]. split; [split; assumption | exact H2]. Qed.
-  Lemma IP_regOK : forall d E, IP d -> (forall x, In x (en_keys d) <-> In x E) -> regOK d E.
-  Proof. intros d E [Hp Hd] H. unfold regOK. rewrite Hp. split; assumption. Qed.
+  Lemma fn_locs_gs : forall b, fn_locs rf bias b = map (N.add bias) (fn_gs b).
+  Proof. intros [[f|] o]; reflexivity. Qed.
 
-  (** ** each request preserves the invariant *)
-  Lemma step_src_inv : forall s p src bps s' r,
-    Inv s p -> d_phase (s_dbg s) = InProgress ->
-    forallb (fun b => N.of_nat (length (rl src (fst b))) <=? 1) bps = true ->
-    NoDup (EXP (spec_step p (SetSource src bps))) ->
-    step rl rf va wo bias s (SetSource src bps) = Ok (s', r) ->
-    Inv s' (spec_step p (SetSource src bps)) /\ d_phase (s_dbg s') = InProgress.
-  Proof.
-    intros s p src bps s' r HI Hp Hsl Hnd Hs. destruct HI as [Is If Ii Ind Ik Ir].
-    cbn [step] in Hs. destruct (i64_max <? s_next s + N.of_nat (length bps)); [discriminate|].
-    destruct (set_lines rl bias src bps (remove_records (src_get src (s_src s)) (s_dbg s)) (s_next s)) as [d2 rs] eqn:E.
-    inversion Hs; subst s' r. clear Hs.
-    destruct (regOK_IP _ _ Hp Ir) as [Hip Hkeys].
-    destruct (remove_prev _ _ _ Hip (src_get_corr src _ _ Is)) as [H1 H2].
-    destruct (set_lines_IP _ _ _ _ _ _ H1 E) as [H3 [H4 H5]].
-    split; [|exact (proj1 H3)].
-    constructor; cbn [s_src s_fn s_ins s_dbg spec_step p_src p_fn p_ins].
-    - cbn [map]. f_equal.
-      + unfold srcA, srcE. cbn [fst snd]. f_equal. apply H5. exact Hsl.
-      + apply src_remove_corr. exact Is.
-    - exact If.
-    - exact Ii.
-    - exact Hnd.
-    - apply pfilter_keys. exact Ik.
-    - apply IP_regOK; [exact H3|]. intro x. rewrite H4, H2, Hkeys.
-      rewrite !EXP_unfold. cbn [p_src p_fn p_ins]. fold (pfilter src (p_src p)).
-      unfold Fsrc at 2. cbn [flat_map fst snd]. fold (Fsrc (pfilter src (p_src p))).
-      rewrite EXP_unfold in Ind. rewrite !in_app_iff.
-      pose proof (Fsrc_split src (p_src p) x Ik) as Hsp.
-      split.
-      + intros [H|[[H|H] Hn]]; [tauto| |tauto]. apply Hsp in H. tauto.
-      + intros [[H|H]|H]; [tauto| |].
-        * right. split; [left; apply Hsp; left; exact H|].
-          intro Hg. exact (Fsrc_disj src _ x Ik (NoDup_app_l _ _ _ Ind) Hg H).
-        * right. split; [right; exact H|]. intro Hg.
-          apply (NoDup_app_disj _ _ _ x Ind); [apply Hsp; right; exact Hg|]. apply in_or_app. exact H.
-  Qed.
-
-  Lemma step_fn_inv : forall s p bps s' r,
-    Inv s p -> d_phase (s_dbg s) = InProgress ->
-    NoDup (EXP (spec_step p (SetFunction bps))) ->
+  Lemma step_fn_inv : forall s p n bps s' r,
+    Inv s p n -> NoDup (EXP (spec_step p (SetFunction bps))) ->
+    n + cost rl rf (SetFunction bps) < lim32 ->
     step rl rf va wo bias s (SetFunction bps) = Ok (s', r) ->
-    Inv s' (spec_step p (SetFunction bps)) /\ d_phase (s_dbg s') = InProgress.
+    Inv s' (spec_step p (SetFunction bps)) (n + cost rl rf (SetFunction bps)) /\
+    d_phase (s_dbg s') = d_phase (s_dbg s).
   Proof.
-    intros s p bps s' r HI Hp Hnd Hs. destruct HI as [Is If Ii Ind Ik Ir].
+    intros s p n bps s' r HI Hnd Hc Hs. pose proof HI as [Iw In_ Is If Ii Ind Ik Il].
     cbn [step] in Hs. destruct (i64_max <? s_next s + N.of_nat (length bps)); [discriminate|].
     destruct (set_fns rf bias bps (remove_records (s_fn s) (s_dbg s)) (s_next s)) as [d2 rs] eqn:E.
     inversion Hs; subst s' r. clear Hs.
-    destruct (regOK_IP _ _ Hp Ir) as [Hip Hkeys].
-    destruct (remove_prev _ _ _ Hip If) as [H1 H2].
-    destruct (set_fns_IP _ _ _ _ _ H1 E) as [H3 [H4 H5]].
-    split; [|exact (proj1 H3)].
-    constructor; cbn [s_src s_fn s_ins s_dbg spec_step p_src p_fn p_ins]; try assumption.
-    apply IP_regOK; [exact H3|]. intro x. rewrite H4, H2, Hkeys.
-    rewrite !EXP_unfold. cbn [p_src p_fn p_ins]. rewrite EXP_unfold in Ind. rewrite !in_app_iff.
-    split; [tauto|]. intros [H|[H|H]]; [|tauto|].
-    - right. split; [tauto|]. intro Hf. apply (NoDup_app_disj _ _ _ x Ind H). apply in_or_app. left; exact Hf.
-    - right. split; [tauto|]. intro Hf. exact (NoDup_app_disj _ _ _ x (NoDup_app_r _ _ _ Ind) Hf H).
+    set (PK := pairs_of (s_fn s)). set (PO := Psrc (s_src s) ++ pairs_of (s_ins s)).
+    destruct (link_perm s p n PK PO HI) as [Hl Hn].
+    { unfold all_pairs, PK, PO. apply Permutation_app_swap_app. }
+    rewrite remove_records_flat, <- (proj2 (views_pairs _ _ _ _ _ If)) in E. fold PK in E.
+    destruct (remove_group _ PK PO Iw Hl Hn) as [W1 [Hn1 [Hp1 Hs1]]].
+    rewrite set_fns_places in E.
+    cbn [spec_step] in Hnd. rewrite EXP_unfold in Hnd. cbn [p_src p_fn p_ins] in Hnd.
+    cbn [cost] in Hc.
+    assert (Hloc : flat_map item_locs (map (fun b => (fn_gs b, snd b)) bps) = flat_map (fn_locs rf bias) bps).
+    { rewrite flat_map_map. apply flat_map_ext. intro b. unfold item_locs. cbn [fst]. symmetry. apply fn_locs_gs. }
+    assert (HPO : map fst PO = Fsrc (p_src p) ++ flat_map (ins_locs va bias) (p_ins p)).
+    { unfold PO. rewrite map_app, (src_views_locs _ _ Is), (proj1 (views_pairs _ _ _ _ _ Ii)). reflexivity. }
+    refine (let H := set_places_sem _ _ _ _ _ W1 _ _ _ E in _).
+    Unshelve.
+    2:{ rewrite Hn1. rewrite flat_map_map. cbn [fst]. unfold fn_gs. lia. }
+    2:{ rewrite Hloc. exact (NoDup_app_l _ _ _ (NoDup_app_r _ _ _ Hnd)). }
+    2:{ rewrite Hloc. intros e He Hi. apply Hs1 in He. apply (in_map fst) in He. rewrite HPO in He.
+      apply in_app_iff in He. destruct He as [He|He].
+      - apply (NoDup_app_disj _ _ _ _ Hnd He). apply in_or_app. left; exact Hi.
+      - exact (NoDup_app_disj _ _ _ _ (NoDup_app_r _ _ _ Hnd) Hi He). }
+    destruct H as [W2 [Hn2 [Hp2 [Hs2 Hv2]]]].
+    split; [|cbn [s_dbg]; congruence].
+    constructor; cbn [s_dbg s_src s_fn s_ins spec_step p_src p_fn p_ins].
+    - exact W2.
+    - rewrite Hn2, Hn1. rewrite flat_map_map. cbn [fst cost]. unfold fn_gs. lia.
+    - exact Is.
+    - rewrite Hv2, map_map. apply map_ext. intro b. unfold item_locs. cbn [fst snd]. rewrite fn_locs_gs. reflexivity.
+    - exact Ii.
+    - rewrite EXP_unfold. exact Hnd.
+    - exact Ik.
+    - intro e. rewrite Hs2, Hs1. unfold all_pairs, PO. cbn [s_src s_fn s_ins]. rewrite !in_app_iff. tauto.
   Qed.
 
-  Lemma step_ins_inv : forall s p bps s' r,
-    Inv s p -> d_phase (s_dbg s) = InProgress ->
-    NoDup (EXP (spec_step p (SetInstruction bps))) ->
+  Lemma step_ins_inv : forall s p n bps s' r,
+    Inv s p n -> NoDup (EXP (spec_step p (SetInstruction bps))) ->
+    ins_valid va bias (d_phase (s_dbg s)) (SetInstruction bps) = true ->
+    n + cost rl rf (SetInstruction bps) < lim32 ->
     step rl rf va wo bias s (SetInstruction bps) = Ok (s', r) ->
-    Inv s' (spec_step p (SetInstruction bps)) /\ d_phase (s_dbg s') = InProgress.
+    Inv s' (spec_step p (SetInstruction bps)) (n + cost rl rf (SetInstruction bps)) /\
+    d_phase (s_dbg s') = d_phase (s_dbg s).
   Proof.
-    intros s p bps s' r HI Hp Hnd Hs. destruct HI as [Is If Ii Ind Ik Ir].
+    intros s p n bps s' r HI Hnd Hiv Hc Hs. pose proof HI as [Iw In_ Is If Ii Ind Ik Il].
     cbn [step] in Hs. destruct (i64_max <? s_next s + N.of_nat (length bps)); [discriminate|].
     destruct (set_instrs va bias bps (remove_records (s_ins s) (s_dbg s)) (s_next s)) as [d2 rs] eqn:E.
     inversion Hs; subst s' r. clear Hs.
-    destruct (regOK_IP _ _ Hp Ir) as [Hip Hkeys].
-    destruct (remove_prev _ _ _ Hip Ii) as [H1 H2].
-    destruct (set_instrs_IP _ _ _ _ _ H1 E) as [H3 [H4 H5]].
-    split; [|exact (proj1 H3)].
-    constructor; cbn [s_src s_fn s_ins s_dbg spec_step p_src p_fn p_ins]; try assumption.
-    apply IP_regOK; [exact H3|]. intro x. rewrite H4, H2, Hkeys.
-    rewrite !EXP_unfold. cbn [p_src p_fn p_ins]. rewrite EXP_unfold in Ind. rewrite !in_app_iff.
-    split; [tauto|]. intros [H|[H|H]]; [| |tauto].
-    - right. split; [tauto|]. intro Hf. apply (NoDup_app_disj _ _ _ x Ind H). apply in_or_app. right; exact Hf.
-    - right. split; [tauto|]. intro Hf. exact (NoDup_app_disj _ _ _ x (NoDup_app_r _ _ _ Ind) H Hf).
+    set (PK := pairs_of (s_ins s)). set (PO := Psrc (s_src s) ++ pairs_of (s_fn s)).
+    destruct (link_perm s p n PK PO HI) as [Hl Hn].
+    { unfold all_pairs, PK, PO. rewrite app_assoc. apply Permutation_app_comm. }
+    rewrite remove_records_flat, <- (proj2 (views_pairs _ _ _ _ _ Ii)) in E. fold PK in E.
+    destruct (remove_group _ PK PO Iw Hl Hn) as [W1 [Hn1 [Hp1 Hs1]]].
+    cbn [spec_step] in Hnd. rewrite EXP_unfold in Hnd. cbn [p_src p_fn p_ins] in Hnd.
+    cbn [cost] in Hc.
+    assert (HPO : map fst PO = Fsrc (p_src p) ++ flat_map (fn_locs rf bias) (p_fn p)).
+    { unfold PO. rewrite map_app, (src_views_locs _ _ Is), (proj1 (views_pairs _ _ _ _ _ If)). reflexivity. }
+    refine (let H := set_instrs_sem _ _ _ _ _ W1 _ _ _ _ E in _).
+    Unshelve.
+    2:{ rewrite Hn1. lia. }
+    2:{ rewrite Hp1. cbn [ins_valid] in Hiv. apply orb_true_iff in Hiv. destruct Hiv as [Hv|Hv]; [left|right; exact Hv].
+        destruct (d_phase (s_dbg s)); try discriminate; reflexivity. }
+    2:{ exact (NoDup_app_r _ _ _ (NoDup_app_r _ _ _ Hnd)). }
+    2:{ intros e He Hi. apply Hs1 in He. apply (in_map fst) in He. rewrite HPO in He. rewrite app_assoc in Hnd.
+        exact (NoDup_app_disj _ _ _ _ Hnd He Hi). }
+    destruct H as [W2 [Hn2 [Hp2 [Hs2 Hv2]]]].
+    split; [|cbn [s_dbg]; congruence].
+    constructor; cbn [s_dbg s_src s_fn s_ins spec_step p_src p_fn p_ins].
+    - exact W2.
+    - cbn [cost]. lia.
+    - exact Is.
+    - exact If.
+    - exact Hv2.
+    - rewrite EXP_unfold. exact Hnd.
+    - exact Ik.
+    - intro e. rewrite Hs2, Hs1. unfold all_pairs, PO. cbn [s_src s_fn s_ins]. rewrite !in_app_iff. tauto.
+  Qed.
+
+  Lemma src_get_pairs : forall src (l : list (N * list brec)),
+    pairs_of (src_get src l) = AG (fun _ rs => pairs_of rs) src l.
+  Proof. intros src l. unfold src_get, AG. destruct (alist_get N.eqb l src); reflexivity. Qed.
+
+  Lemma step_src_inv : forall s p n src bps s' r,
+    Inv s p n -> NoDup (EXP (spec_step p (SetSource src bps))) ->
+    n + cost rl rf (SetSource src bps) < lim32 ->
+    step rl rf va wo bias s (SetSource src bps) = Ok (s', r) ->
+    Inv s' (spec_step p (SetSource src bps)) (n + cost rl rf (SetSource src bps)) /\
+    d_phase (s_dbg s') = d_phase (s_dbg s).
+  Proof.
+    intros s p n src bps s' r HI Hnd Hc Hs. pose proof HI as [Iw In_ Is If Ii Ind Ik Il].
+    cbn [step] in Hs. destruct (i64_max <? s_next s + N.of_nat (length bps)); [discriminate|].
+    destruct (set_lines rl bias src bps (remove_records (src_get src (s_src s)) (s_dbg s)) (s_next s)) as [d2 rs] eqn:E.
+    inversion Hs; subst s' r. clear Hs.
+    set (PK := pairs_of (src_get src (s_src s))).
+    set (PO := Psrc (afilter src (s_src s)) ++ pairs_of (s_fn s) ++ pairs_of (s_ins s)).
+    assert (Hkeys : NoDup (map fst (s_src s))) by (rewrite (views_keys _ _ Is); exact Ik).
+    destruct (link_perm s p n PK PO HI) as [Hl Hn].
+    { unfold all_pairs, PK, PO. rewrite src_get_pairs.
+      rewrite (app_assoc (AG (fun _ rs => pairs_of rs) src (s_src s)) (Psrc (afilter src (s_src s)))).
+      apply Permutation_app_tail. apply AF_perm. exact Hkeys. }
+    pose proof (src_get_views src _ _ Is) as Hgv.
+    rewrite remove_records_flat, <- (proj2 (views_pairs _ _ _ _ _ Hgv)) in E. fold PK in E.
+    destruct (remove_group _ PK PO Iw Hl Hn) as [W1 [Hn1 [Hp1 Hs1]]].
+    rewrite set_lines_places in E.
+    cbn [spec_step] in Hnd. rewrite EXP_unfold in Hnd. cbn [p_src p_fn p_ins] in Hnd.
+    fold (afilter src (p_src p)) in Hnd. unfold Fsrc at 1 in Hnd. unfold AF in Hnd. cbn [flat_map fst snd] in Hnd.
+    fold (AF (fun src bps => flat_map (line_locs rl bias src) bps) (afilter src (p_src p))) in Hnd.
+    fold (Fsrc (afilter src (p_src p))) in Hnd. rewrite <- app_assoc in Hnd.
+    cbn [cost] in Hc.
+    assert (Hloc : flat_map item_locs (map (fun b => (rl src (fst b), snd b)) bps) = flat_map (line_locs rl bias src) bps).
+    { rewrite flat_map_map. reflexivity. }
+    assert (Hfv : map src_recs_view (afilter src (s_src s)) = map src_spec_view (afilter src (p_src p))).
+    { apply afilter_view; [intro; reflexivity | intro; reflexivity | exact Is]. }
+    assert (HPO : map fst PO = Fsrc (afilter src (p_src p)) ++ flat_map (fn_locs rf bias) (p_fn p) ++ flat_map (ins_locs va bias) (p_ins p)).
+    { unfold PO. rewrite !map_app, (src_views_locs _ _ Hfv), (proj1 (views_pairs _ _ _ _ _ If)), (proj1 (views_pairs _ _ _ _ _ Ii)). reflexivity. }
+    refine (let H := set_places_sem _ _ _ _ _ W1 _ _ _ E in _).
+    Unshelve.
+    2:{ rewrite Hn1. rewrite flat_map_map. cbn [fst]. lia. }
+    2:{ rewrite Hloc. exact (NoDup_app_l _ _ _ Hnd). }
+    2:{ rewrite Hloc. intros e He Hi. apply Hs1 in He. apply (in_map fst) in He. rewrite HPO in He.
+        exact (NoDup_app_disj _ _ _ _ Hnd Hi He). }
+    destruct H as [W2 [Hn2 [Hp2 [Hs2 Hv2]]]].
+    split; [|cbn [s_dbg]; congruence].
+    constructor; cbn [s_dbg s_src s_fn s_ins spec_step p_src p_fn p_ins].
+    - exact W2.
+    - rewrite Hn2, Hn1. rewrite flat_map_map. cbn [fst cost]. lia.
+    - cbn [map]. f_equal.
+      + unfold src_recs_view, src_spec_view. cbn [fst snd]. f_equal. rewrite Hv2, map_map. reflexivity.
+      + exact Hfv.
+    - exact If.
+    - exact Ii.
+    - rewrite EXP_unfold. cbn [p_src p_fn p_ins]. fold (afilter src (p_src p)).
+      unfold Fsrc at 1. unfold AF. cbn [flat_map fst snd].
+      fold (AF (fun src bps => flat_map (line_locs rl bias src) bps) (afilter src (p_src p))).
+      fold (Fsrc (afilter src (p_src p))). rewrite <- app_assoc. exact Hnd.
+    - apply (afilter_keys (fun (_ : N) (_ : list (N * opts)) => @nil N) src bps). exact Ik.
+    - intro e. rewrite Hs2, Hs1. unfold all_pairs, PO. cbn [s_src s_fn s_ins].
+      fold (afilter src (s_src s)). unfold Psrc at 2. unfold AF. cbn [flat_map fst snd].
+      fold (AF (fun (_ : N) rs => pairs_of rs) (afilter src (s_src s))). fold (Psrc (afilter src (s_src s))).
+      rewrite !in_app_iff. tauto.
   Qed.
 
   (* data breakpoints never touch the breakpoint registry *)
-  Definition core (d : dbg) := (d_phase d, d_en d, d_dis d).
-  Lemma regOK_core : forall d d' E, core d = core d' -> regOK d E -> regOK d' E.
+  Definition core (d : dbg) := (d_phase d, d_en d, d_dis d, d_num d).
+  Lemma WF_core : forall d d', core d = core d' -> WF d -> WF d'.
   Proof.
-    intros d d' E H. unfold core in H. inversion H as [[Hp He Hd]].
-    unfold regOK, en_keys. rewrite Hp, He, Hd. tauto.
+    intros d d' H W. unfold core in H. inversion H as [[Hp He Hd Hn]]. destruct W as [a b c e f g h i].
+    constructor; unfold ents in *; rewrite <- ?Hp, <- ?He, <- ?Hd, <- ?Hn; assumption.
   Qed.
+  Lemma ents_core : forall d d', core d = core d' -> ents d = ents d'.
+  Proof. intros d d' H. unfold core in H. inversion H as [[Hp He Hd Hn]]. unfold ents. rewrite He, Hd. reflexivity. Qed.
   Lemma remove_wps_core : forall (m : list (N * N)) d,
     core (fold_left (fun d e => dbg_remove_wp d (fst e)) m d) = core d.
   Proof. induction m as [|e t IH]; intro d; cbn [fold_left]; [reflexivity|]. rewrite IH. reflexivity. Qed.
@@ -604,7 +1074,10 @@ Section Inv.
   Qed.
 
   (* hits only change hit counters *)
-  Lemma bump_first_addrs : forall k rs rs' b, bump_first k rs = Some (rs', b) -> map r_addrs rs' = map r_addrs rs.
+  Definition keep (r : brec) := (recview r, pairs r).
+  Lemma bump_keep : forall r, keep (bump r) = keep r.
+  Proof. intro r. reflexivity. Qed.
+  Lemma bump_first_keep : forall k rs rs' b, bump_first k rs = Some (rs', b) -> map keep rs' = map keep rs.
   Proof.
     induction rs as [|r t IH]; intros rs' b H; cbn [bump_first] in H; [discriminate|].
     destruct (rec_has k r).
@@ -612,44 +1085,73 @@ Section Inv.
     - destruct (bump_first k t) as [[t' b']|] eqn:E; [|discriminate]. inversion H; subst.
       cbn [map]. f_equal. eapply IH; eauto.
   Qed.
-  Lemma flat_map_addrs : forall rs rs', map r_addrs rs' = map r_addrs rs -> flat_map r_addrs rs' = flat_map r_addrs rs.
-  Proof. intros rs rs' H. rewrite !flat_map_concat_map, H. reflexivity. Qed.
-  Lemma bump_src_addrs : forall k l l' b, bump_src k l = Some (l', b) -> map srcA l' = map srcA l.
+  Lemma keep_views : forall rs rs', map keep rs' = map keep rs ->
+    map recview rs' = map recview rs /\ pairs_of rs' = pairs_of rs.
+  Proof.
+    intros rs rs' H. split.
+    - apply (f_equal (map fst)) in H. rewrite !map_map in H. exact H.
+    - apply (f_equal (map snd)) in H. rewrite !map_map in H. unfold pairs_of. rewrite !flat_map_concat_map.
+      unfold keep in H. cbn [snd] in H.
+      replace (map pairs rs') with (map (fun x => pairs x) rs') by reflexivity. rewrite H. reflexivity.
+  Qed.
+  Lemma bump_src_keep : forall k l l' b, bump_src k l = Some (l', b) ->
+    map src_recs_view l' = map src_recs_view l /\ Psrc l' = Psrc l.
   Proof.
     induction l as [|[src rs] t IH]; intros l' b H; cbn [bump_src] in H; [discriminate|].
     destruct (bump_first k rs) as [[rs' b']|] eqn:E.
-    - inversion H; subst. cbn [map]. f_equal. unfold srcA. cbn [fst snd]. f_equal.
-      apply flat_map_addrs. eapply bump_first_addrs; eauto.
+    - inversion H; subst. destruct (keep_views _ _ (bump_first_keep _ _ _ _ E)) as [H1 H2].
+      unfold Psrc, AF. cbn [map flat_map fst snd]. unfold src_recs_view at 1 3. cbn [fst snd]. rewrite H1, H2. split; reflexivity.
     - destruct (bump_src k t) as [[t' b']|] eqn:E2; [|discriminate]. inversion H; subst.
-      cbn [map]. f_equal. eapply IH; eauto.
+      destruct (IH _ _ eq_refl) as [H1 H2]. unfold Psrc, AF in *. cbn [map flat_map]. rewrite H1, H2. split; reflexivity.
   Qed.
-  Lemma record_hit_inv : forall s k s' b p, record_hit s k = Some (s', b) -> Inv s p -> Inv s' p /\ s_dbg s' = s_dbg s.
+  Lemma record_hit_inv : forall s k s' b p n, record_hit s k = Some (s', b) -> Inv s p n -> Inv s' p n /\ s_dbg s' = s_dbg s.
   Proof.
-    intros s k s' b p H [Is If Ii Ind Ik Ir]. unfold record_hit in H.
+    intros s k s' b p n H [Iw In_ Is If Ii Ind Ik Il]. unfold record_hit in H.
     destruct (bump_src k (s_src s)) as [[l b1]|] eqn:E1.
-    { inversion H; subst. split; [|reflexivity]. constructor; cbn [s_src s_fn s_ins s_dbg]; try assumption.
-      rewrite (bump_src_addrs _ _ _ _ E1). exact Is. }
+    { inversion H; subst. split; [|reflexivity]. destruct (bump_src_keep _ _ _ _ E1) as [H1 H2].
+      constructor; cbn [s_src s_fn s_ins s_dbg]; try assumption.
+      - rewrite H1. exact Is.
+      - intro e. rewrite Il. unfold all_pairs. cbn [s_src s_fn s_ins]. rewrite H2. tauto. }
     destruct (bump_first k (s_fn s)) as [[l b1]|] eqn:E2.
-    { inversion H; subst. split; [|reflexivity]. constructor; cbn [s_src s_fn s_ins s_dbg]; try assumption.
-      rewrite (flat_map_addrs _ _ (bump_first_addrs _ _ _ _ E2)). exact If. }
+    { inversion H; subst. split; [|reflexivity]. destruct (keep_views _ _ (bump_first_keep _ _ _ _ E2)) as [H1 H2].
+      constructor; cbn [s_src s_fn s_ins s_dbg]; try assumption.
+      - rewrite H1. exact If.
+      - intro e. rewrite Il. unfold all_pairs. cbn [s_src s_fn s_ins]. rewrite H2. tauto. }
     destruct (bump_first k (s_ins s)) as [[l b1]|] eqn:E3; [|discriminate].
-    inversion H; subst. split; [|reflexivity]. constructor; cbn [s_src s_fn s_ins s_dbg]; try assumption.
-    rewrite (flat_map_addrs _ _ (bump_first_addrs _ _ _ _ E3)). exact Ii.
+    inversion H; subst. split; [|reflexivity]. destruct (keep_views _ _ (bump_first_keep _ _ _ _ E3)) as [H1 H2].
+    constructor; cbn [s_src s_fn s_ins s_dbg]; try assumption.
+    - rewrite H1. exact Ii.
+    - intro e. rewrite Il. unfold all_pairs. cbn [s_src s_fn s_ins]. rewrite H2. tauto.
   Qed.
 
-  Definition next_phase (q : req) (ph : phase) : phase :=
-    match q, ph with
-    | Start, Unload => InProgress
-    | Restart, _ => InProgress
-    | Exit, InProgress => Exited
-    | _, _ => ph
-    end.
-
-  Lemma step_other_inv : forall s p q s' r,
-    is_bp_set q = false -> Inv s p -> step rl rf va wo bias s q = Ok (s', r) ->
-    Inv s' (spec_step p q) /\ d_phase (s_dbg s') = next_phase q (d_phase (s_dbg s)).
+  Lemma Inv_ents_kf : forall s p n, Inv s p n -> kf (ents (s_dbg s)).
   Proof.
-    intros s p q s' r Hq HI Hs. pose proof HI as [Is If Ii Ind Ik Ir].
+    intros s p n HI e e' H1 H2 E. apply (i_link _ _ _ HI) in H1. apply (i_link _ _ _ HI) in H2.
+    rewrite (NoDup_fst_fun (all_pairs s) e e'); auto. rewrite (all_pairs_locs _ _ _ HI). apply (i_nd _ _ _ HI).
+  Qed.
+  Lemma Inv_ge_bias : forall s p n, Inv s p n -> forall e, In e (d_en (s_dbg s)) -> bias <= fst e.
+  Proof.
+    intros s p n HI e He. apply (EXP_ge_bias p). rewrite <- (all_pairs_locs _ _ _ HI). apply in_map.
+    apply (i_link _ _ _ HI). unfold ents. apply in_or_app. left; exact He.
+  Qed.
+
+  Lemma Inv_dbg : forall s p n d', Inv s p n -> WF d' -> d_num d' = d_num (s_dbg s) ->
+    (forall e, In e (ents d') <-> In e (ents (s_dbg s))) -> Inv (with_dbg s d') p n.
+  Proof.
+    intros s p n d' [Iw In_ Is If Ii Ind Ik Il] W Hn He.
+    constructor; cbn [with_dbg s_dbg s_src s_fn s_ins]; try assumption.
+    - rewrite Hn. exact In_.
+    - intro e. rewrite He. apply Il.
+  Qed.
+
+  Lemma Inv_mono : forall s p n m, Inv s p n -> n <= m -> Inv s p m.
+  Proof. intros s p n m [Iw In_ Is If Ii Ind Ik Il] H. constructor; try assumption. lia. Qed.
+
+  Lemma step_other_inv : forall s p n q s' r,
+    is_bp_set q = false -> Inv s p n -> step rl rf va wo bias s q = Ok (s', r) ->
+    Inv s' (spec_step p q) n /\ d_phase (s_dbg s') = next_phase q (d_phase (s_dbg s)).
+  Proof.
+    intros s p n q s' r Hq HI Hs. pose proof HI as [Iw In_ Is If Ii Ind Ik Il].
     destruct q as [src bps|bps|bps|bps| | | |a cv]; try discriminate; cbn [spec_step next_phase].
     - (* SetData *)
       cbn [step] in Hs. destruct (i64_max <? s_next s + N.of_nat (length bps)); [discriminate|].
@@ -657,187 +1159,246 @@ Section Inv.
       assert (Hc : core (s_dbg s) = core d2).
       { rewrite (set_datas_core _ _ _ _ _ _ _ E), remove_wps_core. reflexivity. }
       split.
-      + constructor; cbn [s_src s_fn s_ins s_dbg]; try assumption. eapply regOK_core; eauto.
+      + constructor; cbn [s_src s_fn s_ins s_dbg]; try assumption.
+        * eapply WF_core; eauto.
+        * assert (Hn : d_num d2 = d_num (s_dbg s)) by (unfold core in Hc; congruence). lia.
+        * intro e. rewrite <- (ents_core _ _ Hc). apply Il.
       + cbn [s_dbg]. unfold core in Hc. inversion Hc. destruct (d_phase (s_dbg s)); reflexivity.
     - (* Start *)
       cbn [step] in Hs. destruct (d_phase (s_dbg s)) eqn:Hp; inversion Hs; subst s' r.
-      + split; [|reflexivity]. constructor; cbn [with_dbg s_src s_fn s_ins s_dbg]; try assumption.
-        apply regOK_enable_unload; assumption.
+      + destruct (enable_all_sem (s_dbg s) Iw) as [W1 [Hn1 [Hp1 Hs1]]]; [rewrite Hp; discriminate | eapply Inv_ents_kf; eauto|].
+        split; [apply Inv_dbg; assumption | exact Hp1].
       + split; [exact HI | exact Hp].
       + split; [exact HI | exact Hp].
     - (* Restart *)
       cbn [step] in Hs. destruct (d_phase (s_dbg s)) eqn:Hp; inversion Hs; subst s' r.
-      + split; [|reflexivity]. constructor; cbn [with_dbg s_src s_fn s_ins s_dbg]; try assumption.
-        apply regOK_enable_unload; assumption.
-      + split; [|reflexivity]. constructor; cbn [with_dbg s_src s_fn s_ins s_dbg]; try assumption.
-        apply regOK_restart; try assumption. apply EXP_ge_bias.
-      + split; [|reflexivity]. constructor; cbn [with_dbg s_src s_fn s_ins s_dbg]; try assumption.
-        apply regOK_enable_exited; assumption.
+      + destruct (enable_all_sem (s_dbg s) Iw) as [W1 [Hn1 [Hp1 Hs1]]]; [rewrite Hp; discriminate | eapply Inv_ents_kf; eauto|].
+        split; [apply Inv_dbg; assumption | exact Hp1].
+      + destruct (disable_all_sem (s_dbg s) Unload Iw Hp) as [W0 [Hn0 [Hp0 Hs0]]]; [discriminate | eapply Inv_ge_bias; eauto|].
+        destruct (enable_all_sem _ W0) as [W1 [Hn1 [Hp1 Hs1]]].
+        { rewrite Hp0. discriminate. }
+        { intros e e' H1 H2. apply Hs0 in H1. apply Hs0 in H2. apply (Inv_ents_kf _ _ _ HI); assumption. }
+        split; [|exact Hp1].
+        apply Inv_dbg; [exact HI | exact W1 | congruence | intro e; rewrite Hs1; apply Hs0].
+      + destruct (enable_all_sem (s_dbg s) Iw) as [W1 [Hn1 [Hp1 Hs1]]]; [rewrite Hp; discriminate | eapply Inv_ents_kf; eauto|].
+        split; [apply Inv_dbg; assumption | exact Hp1].
     - (* Exit *)
       cbn [step] in Hs. destruct (d_phase (s_dbg s)) eqn:Hp; inversion Hs; subst s' r.
       + split; [exact HI | exact Hp].
-      + split; [|reflexivity]. constructor; cbn [with_dbg s_src s_fn s_ins s_dbg]; try assumption.
-        apply regOK_exit; try assumption. apply EXP_ge_bias.
+      + destruct (disable_all_sem (s_dbg s) Exited Iw Hp) as [W0 [Hn0 [Hp0 Hs0]]]; [discriminate | eapply Inv_ge_bias; eauto|].
+        split; [apply Inv_dbg; assumption | exact Hp0].
       + split; [exact HI | exact Hp].
     - (* Hit *)
       cbn [step] in Hs.
       assert (Hph : forall ph : phase, match ph with Unload => ph | InProgress => ph | Exited => ph end = ph)
         by (intros []; reflexivity).
-      destruct (in_progress (s_dbg s) && en_has a (d_en (s_dbg s))).
-      + destruct (record_hit s (Rel a)) as [[s1 b]|] eqn:E.
+      destruct (if in_progress (s_dbg s) then alist_get N.eqb (d_en (s_dbg s)) a else None) as [num|].
+      + destruct (record_hit s num) as [[s1 b]|] eqn:E.
         * destruct (decide b cv) as [st o]. inversion Hs; subst s' r.
-          destruct (record_hit_inv _ _ _ _ p E HI) as [H1 H2]. split; [exact H1|]. rewrite H2.
+          destruct (record_hit_inv _ _ _ _ p n E HI) as [H1 H2]. split; [exact H1|]. rewrite H2.
           destruct (d_phase (s_dbg s)); reflexivity.
         * inversion Hs; subst s' r. split; [exact HI|]. destruct (d_phase (s_dbg s)); reflexivity.
       + inversion Hs; subst s' r. split; [exact HI|]. destruct (d_phase (s_dbg s)); reflexivity.
   Qed.
 
   (** ** whole histories *)
-  Lemma Inv_init : forall n0, Inv (sess_init n0) spec_init.
+  Lemma Inv_init : forall n0, Inv (sess_init n0) spec_init n0.
   Proof.
     intro n0. constructor.
+    - constructor; cbn; try reflexivity; try (intros e e' []); try (intros e []); try (intros a n []).
+    - cbn. lia.
     - reflexivity.
     - reflexivity.
     - reflexivity.
     - constructor.
     - constructor.
-    - unfold regOK. cbn. auto.
+    - intro e. cbn. tauto.
   Qed.
 
-  Lemma run_inv : forall h s p s' rs,
-    Inv s p -> guard_from rl rf va bias (d_phase (s_dbg s)) p h = true ->
-    run rl rf va wo bias s h = Ok (s', rs) -> Inv s' (fold_left spec_step h p).
+  Lemma run_inv : forall h s p n s' rs,
+    Inv s p n -> guard_from rl rf va bias n (d_phase (s_dbg s)) p h = true ->
+    run rl rf va wo bias s h = Ok (s', rs) -> exists m, Inv s' (fold_left spec_step h p) m.
   Proof.
-    induction h as [|q t IH]; intros s p s' rs HI Hg Hr.
-    - cbn in Hr. inversion Hr; subst. exact HI.
+    induction h as [|q t IH]; intros s p n s' rs HI Hg Hr.
+    - cbn in Hr. inversion Hr; subst. exists n. exact HI.
     - cbn [run] in Hr. destruct (step rl rf va wo bias s q) as [[s1 r1]| | |] eqn:Es; cbn [bind] in Hr; try discriminate.
       cbn [fst snd] in Hr.
       destruct (run rl rf va wo bias s1 t) as [[s2 r2]| | |] eqn:Er; cbn [bind] in Hr; try discriminate.
       cbn [fst snd] in Hr. inversion Hr; subst s' rs. clear Hr.
       cbn [guard_from] in Hg. apply andb_true_iff in Hg. destruct Hg as [Hg1 Hg2].
-      fold (next_phase q (d_phase (s_dbg s))) in Hg2.
       cbn [fold_left].
-      assert (Hstep : Inv s1 (spec_step p q) /\ d_phase (s_dbg s1) = next_phase q (d_phase (s_dbg s))).
+      assert (Hstep : Inv s1 (spec_step p q) (n + cost rl rf q) /\ d_phase (s_dbg s1) = next_phase q (d_phase (s_dbg s))).
       { destruct (is_bp_set q) eqn:Eq.
-        - apply andb_true_iff in Hg1. destruct Hg1 as [Hg1 Hnd]. apply andb_true_iff in Hg1.
-          destruct Hg1 as [Hph Hsl]. apply nodupb_NoDup in Hnd.
-          assert (Hp : d_phase (s_dbg s) = InProgress) by (destruct (d_phase (s_dbg s)); try discriminate; reflexivity).
-          destruct q; try discriminate; cbn [next_phase]; rewrite Hp.
+        - apply andb_true_iff in Hg1. destruct Hg1 as [Hg1 Hlim]. apply andb_true_iff in Hg1.
+          destruct Hg1 as [Hnd Hiv]. apply nodupb_NoDup in Hnd. apply N.ltb_lt in Hlim.
+          destruct q; try discriminate; cbn [next_phase].
           + eapply step_src_inv; eauto.
           + eapply step_fn_inv; eauto.
           + eapply step_ins_inv; eauto.
-        - eapply step_other_inv; eauto. }
+        - destruct (step_other_inv _ _ _ _ _ _ Eq HI Es) as [H1 H2]. split; [|exact H2].
+          eapply Inv_mono; [exact H1 | lia]. }
       destruct Hstep as [HI1 Hp1]. rewrite <- Hp1 in Hg2. eapply IH; eauto.
   Qed.
 
-  (** C13_replace_partial: for every history in which all breakpoint-setting requests arrive
-      while the debuggee runs, every line has at most one location and no two requested
-      breakpoints share a location, the registry's locations are exactly those of the latest
-      sets -- across any interleaving with restart, exit and hits. *)
-  Theorem C13_replace_partial : forall n0 h s rs,
-    guard rl rf va bias h = true ->
+  Lemma reg_locs_ents : forall d, reg_locs bias d = map fst (ents d).
+  Proof. intro d. unfold reg_locs, ents, dis_ents. rewrite map_app, map_map. reflexivity. Qed.
+
+  (** C13_replace: for every history -- breakpoint requests before the start, while running,
+      after the exit, across restarts, lines with any number of locations -- in which no
+      location is shared by two requested breakpoints (boolean [guard], which also carries the
+      two technical clauses described at its definition), the registry's locations are exactly
+      the locations of the latest sets. *)
+  Theorem C13_replace : forall n0 h s rs,
+    guard rl rf va bias n0 h = true ->
     run rl rf va wo bias (sess_init n0) h = Ok (s, rs) ->
     forall x, In x (reg_locs bias (s_dbg s)) <-> In x (EXP (spec_run h)).
   Proof.
-    intros n0 h s rs Hg Hr. apply regOK_locs. apply i_reg.
-    eapply run_inv; [apply Inv_init | exact Hg | exact Hr].
+    intros n0 h s rs Hg Hr x.
+    destruct (run_inv h _ _ _ _ _ (Inv_init n0) Hg Hr) as [m HI].
+    unfold spec_run. rewrite reg_locs_ents, <- (all_pairs_locs _ _ _ HI). rewrite !in_map_iff.
+    split; intros [e [He Hi]]; exists e; (split; [exact He|]); apply (i_link _ _ _ HI); exact Hi.
   Qed.
 
-  (* under the same guard a trap at any expected location always finds a record holding it *)
-  Lemma bump_first_found : forall k rs rs' b, bump_first k rs = Some (rs', b) -> In k (r_addrs b).
+  (** ** options are consulted whenever the breakpoint was created *)
+  Lemma bump_first_found : forall k rs rs' b, bump_first k rs = Some (rs', b) -> In k (r_nums b).
   Proof.
     induction rs as [|r t IH]; intros rs' b H; cbn [bump_first] in H; [discriminate|].
     destruct (rec_has k r) eqn:E.
-    - inversion H; subst. unfold rec_has in E. apply existsb_exists in E. destruct E as [y [Hy He]].
-      apply addr_eqb_eq in He. subst y. exact Hy.
+    - inversion H; subst. unfold rec_has in E. apply existsb_eqb_In in E. exact E.
     - destruct (bump_first k t) as [[t' b']|] eqn:E2; [|discriminate]. inversion H; subst. eapply IH; reflexivity.
   Qed.
-  Lemma bump_src_found : forall k l l' b, bump_src k l = Some (l', b) -> In k (r_addrs b).
+  Lemma bump_src_found : forall k l l' b, bump_src k l = Some (l', b) -> In k (r_nums b).
   Proof.
     induction l as [|[src rs] t IH]; intros l' b H; cbn [bump_src] in H; [discriminate|].
     destruct (bump_first k rs) as [[rs' b']|] eqn:E.
     - inversion H; subst. eapply bump_first_found; eauto.
     - destruct (bump_src k t) as [[t' b']|] eqn:E2; [|discriminate]. inversion H; subst. eapply IH; reflexivity.
   Qed.
-  Lemma bump_first_some : forall k rs, In k (flat_map r_addrs rs) -> bump_first k rs <> None.
+  Lemma bump_first_some : forall k rs, In k (flat_map r_nums rs) -> bump_first k rs <> None.
   Proof.
     induction rs as [|r t IH]; intro H; cbn [flat_map] in H; [inversion H|].
     cbn [bump_first]. destruct (rec_has k r) eqn:E; [discriminate|].
     apply in_app_iff in H. destruct H as [H|H].
-    - exfalso. unfold rec_has in E. assert (existsb (addr_eqb k) (r_addrs r) = true); [|congruence].
-      apply existsb_exists. exists k. split; [exact H | apply addr_eqb_refl].
+    - exfalso. unfold rec_has in E. apply existsb_eqb_In in H. congruence.
     - specialize (IH H). destruct (bump_first k t) as [[? ?]|]; [discriminate | congruence].
   Qed.
-  Lemma bump_src_some : forall k l, In k (flat_map snd (map srcA l)) -> bump_src k l <> None.
+  Lemma bump_src_some : forall k (l : list (N * list brec)),
+    In k (flat_map (fun e => flat_map r_nums (snd e)) l) -> bump_src k l <> None.
   Proof.
-    induction l as [|[src rs] t IH]; intro H; cbn [map flat_map] in H; [inversion H|].
-    cbn [bump_src]. apply in_app_iff in H. unfold srcA at 1 in H. cbn [fst snd] in H.
+    induction l as [|[src rs] t IH]; intro H; cbn [flat_map snd] in H; [inversion H|].
+    cbn [bump_src]. apply in_app_iff in H.
     destruct (bump_first k rs) as [[rs' b]|] eqn:E; [discriminate|].
     destruct H as [H|H].
     - exfalso. exact (bump_first_some k rs H E).
     - specialize (IH H). destruct (bump_src k t) as [[? ?]|]; [discriminate | congruence].
   Qed.
-
-  Lemma Fsrc_addrs : forall lp x, In x (Fsrc lp) -> In (Rel x) (flat_map snd (map srcE lp)).
+  Lemma pairs_nums : forall rs e, In e (pairs_of rs) -> In (snd e) (flat_map r_nums rs).
   Proof.
-    induction lp as [|[s0 b0] t IH]; intros x H; [inversion H|].
-    unfold Fsrc in H. cbn [flat_map fst snd] in H. fold (Fsrc t) in H. cbn [map flat_map].
-    apply in_app_iff in H. apply in_or_app. destruct H as [H|H].
-    - left. unfold srcE. cbn [fst snd]. apply In_map_Rel. exact H.
-    - right. apply IH. exact H.
+    intros rs [x n] H. unfold pairs_of in H. apply in_flat_map in H. destruct H as [r [Hr H]].
+    apply in_flat_map. exists r. split; [exact Hr|]. unfold pairs in H. eapply in_combine_r; eauto.
+  Qed.
+  Lemma Psrc_nums : forall l e, In e (Psrc l) -> In (snd e) (flat_map (fun e => flat_map r_nums (snd e)) l).
+  Proof.
+    intros l e H. unfold Psrc, AF in H. apply in_flat_map in H. destruct H as [x [Hx H]].
+    apply in_flat_map. exists x. split; [exact Hx|]. apply pairs_nums. exact H.
+  Qed.
+  Lemma alist_get_in : forall (l : list (N * N)) x n, In (x, n) l -> exists n', alist_get N.eqb l x = Some n' /\ In (x, n') l.
+  Proof.
+    induction l as [|[k v] t IH]; intros x n H; [inversion H|]. cbn [alist_get].
+    destruct (N.eqb_spec x k) as [->|Hne].
+    - exists v. split; [reflexivity | left; reflexivity].
+    - destruct H as [H|H]; [inversion H; congruence|]. destruct (IH _ _ H) as [n' [H1 H2]].
+      exists n'. split; [exact H1 | right; exact H2].
   Qed.
 
-  Theorem C13_hit_consults_record_partial : forall n0 h s rs x,
-    guard rl rf va bias h = true ->
+  (** C13_options: under the guard, whenever the running program traps at a location of the
+      latest sets, the adapter finds the record owning the breakpoint installed there -- no
+      matter in which phase that record was created -- and applies [decide] to it
+      (C13_options_record: [decide] is the specified option semantics). *)
+  Theorem C13_options : forall n0 h s rs x,
+    guard rl rf va bias n0 h = true ->
     run rl rf va wo bias (sess_init n0) h = Ok (s, rs) ->
+    d_phase (s_dbg s) = InProgress ->
     In x (EXP (spec_run h)) ->
-    exists s' b, record_hit s (Rel x) = Some (s', b) /\ In (Rel x) (r_addrs b).
+    exists num s' b, alist_get N.eqb (d_en (s_dbg s)) x = Some num /\
+                     record_hit s num = Some (s', b) /\ In num (r_nums b).
   Proof.
-    intros n0 h s rs x Hg Hr Hx.
-    assert (HI : Inv s (spec_run h)) by (eapply run_inv; [apply Inv_init | exact Hg | exact Hr]).
-    destruct HI as [Is If Ii _ _ _]. rewrite EXP_unfold in Hx. rewrite !in_app_iff in Hx.
-    unfold record_hit.
-    destruct (bump_src (Rel x) (s_src s)) as [[l b]|] eqn:E1.
-    { eexists _, _. split; [reflexivity|]. eapply bump_src_found; eauto. }
-    destruct Hx as [Hx|Hx].
-    { exfalso. apply Fsrc_addrs in Hx. rewrite <- Is in Hx. exact (bump_src_some _ _ Hx E1). }
-    destruct (bump_first (Rel x) (s_fn s)) as [[l b]|] eqn:E2.
-    { eexists _, _. split; [reflexivity|]. eapply bump_first_found; eauto. }
-    destruct Hx as [Hx|Hx].
-    { exfalso. apply In_map_Rel in Hx. rewrite <- If in Hx. exact (bump_first_some _ _ Hx E2). }
-    destruct (bump_first (Rel x) (s_ins s)) as [[l b]|] eqn:E3.
-    { eexists _, _. split; [reflexivity|]. eapply bump_first_found; eauto. }
-    exfalso. apply In_map_Rel in Hx. rewrite <- Ii in Hx. exact (bump_first_some _ _ Hx E3).
+    intros n0 h s rs x Hg Hr Hp Hx.
+    destruct (run_inv h _ _ _ _ _ (Inv_init n0) Hg Hr) as [m HI].
+    unfold spec_run in Hx. rewrite <- (all_pairs_locs _ _ _ HI) in Hx. apply in_map_iff in Hx.
+    destruct Hx as [[x' n] [Hx He]]. cbn [fst] in Hx. subst x'.
+    pose proof (proj2 (i_link _ _ _ HI _) He) as Hent.
+    unfold ents in Hent. rewrite (w_ip _ (i_wf _ _ _ HI) Hp) in Hent. cbn [dis_ents map] in Hent. rewrite app_nil_r in Hent.
+    destruct (alist_get_in _ _ _ Hent) as [num [Hget Hin]]. exists num.
+    assert (Hall : In (x, num) (all_pairs s)).
+    { apply (i_link _ _ _ HI). unfold ents. apply in_or_app. left; exact Hin. }
+    unfold all_pairs in Hall. rewrite !in_app_iff in Hall. unfold record_hit.
+    destruct (bump_src num (s_src s)) as [[l b]|] eqn:E1.
+    { eexists _, _. split; [exact Hget|]. split; [reflexivity|]. eapply bump_src_found; eauto. }
+    destruct Hall as [Hall|Hall].
+    { exfalso. apply Psrc_nums in Hall. exact (bump_src_some _ _ Hall E1). }
+    destruct (bump_first num (s_fn s)) as [[l b]|] eqn:E2.
+    { eexists _, _. split; [exact Hget|]. split; [reflexivity|]. eapply bump_first_found; eauto. }
+    destruct Hall as [Hall|Hall].
+    { exfalso. apply pairs_nums in Hall. exact (bump_first_some _ _ Hall E2). }
+    destruct (bump_first num (s_ins s)) as [[l b]|] eqn:E3.
+    { eexists _, _. split; [exact Hget|]. split; [reflexivity|]. eapply bump_first_found; eauto. }
+    exfalso. apply pairs_nums in Hall. exact (bump_first_some _ _ Hall E3).
+  Qed.
+
+  Theorem C13_options_record : forall id addrs nums o n cv,
+    n + 1 < u64_lim -> (o_cond o = true -> cv <> None) ->
+    fst (decide (bump (mk_rec id addrs nums (o_cond o) (parse_hit_opt (o_hit o)) (o_log o) n)) cv)
+    = spec_stop o (n + 1) cv.
+  Proof.
+    intros id addrs nums o n cv Hn Hc. unfold bump. cbn [r_hits r_id r_addrs r_nums r_cond r_hit r_log].
+    destruct (N.eqb_spec n (u64_lim - 1)) as [E|_]; [unfold u64_lim in *; lia|].
+    unfold decide, spec_stop. cbn [r_cond r_hit r_log r_hits].
+    destruct (o_cond o) eqn:Ec.
+    - destruct cv as [[|]|]; [| reflexivity | exfalso; apply Hc; reflexivity].
+      destruct (parse_hit_opt (o_hit o)) as [[e|e|e|e|e|raw]|]; cbn [hc_matches andb];
+        try (destruct (o_log o); reflexivity);
+        match goal with |- context [if ?c then _ else _] => destruct c end; cbn [andb fst]; destruct (o_log o); reflexivity.
+    - destruct (parse_hit_opt (o_hit o)) as [[e|e|e|e|e|raw]|]; cbn [hc_matches andb];
+        try (destruct (o_log o); reflexivity);
+        match goal with |- context [if ?c then _ else _] => destruct c end; cbn [andb fst]; destruct (o_log o); reflexivity.
   Qed.
 
   (** ** `verified` *)
-  Lemma view_addrs_nil : forall d gs, view_addrs bias d gs = [] <-> gs = [].
-  Proof. intros d gs. unfold view_addrs. destruct (in_progress d); destruct gs; cbn; split; intro H; try reflexivity; discriminate. Qed.
-
   Definition nonempty {A} (l : list A) : bool := match l with [] => false | _ => true end.
 
-  Lemma set_lines_verified : forall src bps d id d2 rs,
-    set_lines rl bias src bps d id = (d2, rs) ->
-    map fst (rsp_of rs) = map (fun b => nonempty (rl src (fst b))) bps.
+  Lemma set_places_verified : forall items d id d2 rs,
+    set_places items d id = (d2, rs) ->
+    map fst (rsp_of rs) = map (fun it => nonempty (fst it)) items.
   Proof.
-    induction bps as [|[line o] t IH]; intros d id d2 rs H; cbn [set_lines] in H.
+    induction items as [|[gs o] t IH]; intros d id d2 rs H; cbn [set_places] in H.
     - inversion H; reflexivity.
-    - destruct (set_lines rl bias src t _ (id + 1)) as [d3 rs3] eqn:E. inversion H; subst.
+    - destruct (set_places t _ (id + 1)) as [d3 rs3] eqn:E. inversion H; subst.
       unfold rsp_of. cbn [map fst]. f_equal; [|eapply IH; eauto].
-      unfold new_rec. cbn [r_addrs]. unfold view_addrs.
-      destruct (in_progress d); destruct (rl src line); reflexivity.
+      unfold new_rec. cbn [r_addrs]. unfold view_addrs. destruct (in_progress d); destruct gs; reflexivity.
   Qed.
-  Lemma set_fns_verified : forall bps d id d2 rs,
-    set_fns rf bias bps d id = (d2, rs) ->
-    map fst (rsp_of rs) = map (fun b => nonempty (fn_locs rf bias b)) bps.
+
+  Theorem C13_verified_source : forall s src bps s' l,
+    step rl rf va wo bias s (SetSource src bps) = Ok (s', RBps l) ->
+    map fst l = map (fun b => nonempty (line_locs rl bias src b)) bps.
   Proof.
-    induction bps as [|[name o] t IH]; intros d id d2 rs H; cbn [set_fns] in H.
-    - inversion H; reflexivity.
-    - destruct (set_fns rf bias t _ (id + 1)) as [d3 rs3] eqn:E. inversion H; subst.
-      unfold rsp_of. cbn [map fst]. f_equal; [|eapply IH; eauto].
-      unfold new_rec, fn_locs. cbn [r_addrs fst]. unfold view_addrs.
-      destruct (in_progress d); destruct name as [f|]; try reflexivity; destruct (rf f); reflexivity.
+    intros s src bps s' l H. cbn [step] in H.
+    destruct (i64_max <? s_next s + N.of_nat (length bps)); [discriminate|].
+    destruct (set_lines rl bias src bps _ (s_next s)) as [d2 rs] eqn:E. inversion H; subst.
+    rewrite set_lines_places in E. rewrite (set_places_verified _ _ _ _ _ E), map_map. apply map_ext. intro b.
+    unfold line_locs. cbn [fst]. destruct (rl src (fst b)); reflexivity.
   Qed.
+  Theorem C13_verified_function : forall s bps s' l,
+    step rl rf va wo bias s (SetFunction bps) = Ok (s', RBps l) ->
+    map fst l = map (fun b => nonempty (fn_locs rf bias b)) bps.
+  Proof.
+    intros s bps s' l H. cbn [step] in H.
+    destruct (i64_max <? s_next s + N.of_nat (length bps)); [discriminate|].
+    destruct (set_fns rf bias bps _ (s_next s)) as [d2 rs] eqn:E. inversion H; subst.
+    rewrite set_fns_places in E. rewrite (set_places_verified _ _ _ _ _ E), map_map. apply map_ext. intro b.
+    rewrite fn_locs_gs. cbn [fst]. destruct (fn_gs b); reflexivity.
+  Qed.
+
   Lemma set_instrs_verified : forall bps d id d2 rs, in_progress d = true ->
     set_instrs va bias bps d id = (d2, rs) ->
     map fst (rsp_of rs) = map (fun b => nonempty (ins_locs va bias b)) bps.
@@ -853,38 +1414,17 @@ Section Inv.
         * f_equal. eapply IH; eauto.
       + inversion E1; subst. f_equal. eapply IH; eauto.
   Qed.
-
-  (** `verified` is true exactly for the requested breakpoints that have a location:
-      unconditionally for source and function breakpoints, and for instruction breakpoints
-      set while the debuggee runs (see C13_instr_verified_refuted for the other phase). *)
-  Theorem C13_verified_source : forall s src bps s' l,
-    step rl rf va wo bias s (SetSource src bps) = Ok (s', RBps l) ->
-    map fst l = map (fun b => nonempty (line_locs rl bias src b)) bps.
-  Proof.
-    intros s src bps s' l H. cbn [step] in H.
-    destruct (i64_max <? s_next s + N.of_nat (length bps)); [discriminate|].
-    destruct (set_lines rl bias src bps _ (s_next s)) as [d2 rs] eqn:E. inversion H; subst.
-    rewrite (set_lines_verified _ _ _ _ _ _ E). apply map_ext. intro b. unfold line_locs.
-    destruct (rl src (fst b)); reflexivity.
-  Qed.
-  Theorem C13_verified_function : forall s bps s' l,
-    step rl rf va wo bias s (SetFunction bps) = Ok (s', RBps l) ->
-    map fst l = map (fun b => nonempty (fn_locs rf bias b)) bps.
-  Proof.
-    intros s bps s' l H. cbn [step] in H.
-    destruct (i64_max <? s_next s + N.of_nat (length bps)); [discriminate|].
-    destruct (set_fns rf bias bps _ (s_next s)) as [d2 rs] eqn:E. inversion H; subst.
-    exact (set_fns_verified _ _ _ _ _ E).
-  Qed.
-
   Lemma remove_records_phase : forall rs d, d_phase (remove_records rs d) = d_phase d.
   Proof.
-    intros rs d. rewrite remove_records_flat. unfold remove_addrs.
-    generalize (flat_map r_addrs rs). intro l. revert d.
+    intros rs d. rewrite remove_records_flat. unfold remove_nums.
+    generalize (flat_map r_nums rs). intro l. revert d.
     induction l as [|k t IH]; intro d; cbn [fold_left]; [reflexivity|]. rewrite IH.
-    unfold dbg_remove. destruct (dis_has k (d_dis d)); [reflexivity|]. destruct k; reflexivity.
+    unfold dbg_remove_num, dbg_remove.
+    destruct (find (fun e => snd e =? k) (d_dis d)) as [e|].
+    - destruct (dis_has (fst e) (d_dis d)); [reflexivity|]. destruct (fst e); reflexivity.
+    - destruct (find (fun e => snd e =? k) (d_en d)) as [e|]; [|reflexivity].
+      destruct (dis_has (Rel (fst e)) (d_dis d)); reflexivity.
   Qed.
-
   Theorem C13_verified_instruction_partial : forall s bps s' l,
     d_phase (s_dbg s) = InProgress ->
     step rl rf va wo bias s (SetInstruction bps) = Ok (s', RBps l) ->
@@ -895,25 +1435,6 @@ Section Inv.
     destruct (set_instrs va bias bps _ (s_next s)) as [d2 rs] eqn:E. inversion H; subst.
     refine (set_instrs_verified _ _ _ _ _ _ E). unfold in_progress.
     rewrite remove_records_phase, Hp. reflexivity.
-  Qed.
-
-  (** ** options: once the record is found, its decision is the specified one *)
-  Theorem C13_options_record : forall id addrs o n cv,
-    n + 1 < u64_lim -> (o_cond o = true -> cv <> None) ->
-    fst (decide (bump (mk_rec id addrs (o_cond o) (parse_hit_opt (o_hit o)) (o_log o) n)) cv)
-    = spec_stop o (n + 1) cv.
-  Proof.
-    intros id addrs o n cv Hn Hc. unfold bump. cbn [r_hits r_id r_addrs r_cond r_hit r_log].
-    destruct (N.eqb_spec n (u64_lim - 1)) as [E|_]; [unfold u64_lim in *; lia|].
-    unfold decide, spec_stop. cbn [r_cond r_hit r_log r_hits].
-    destruct (o_cond o) eqn:Ec.
-    - destruct cv as [[|]|]; [| reflexivity | exfalso; apply Hc; reflexivity].
-      destruct (parse_hit_opt (o_hit o)) as [[e|e|e|e|e|raw]|]; cbn [hc_matches andb];
-        try (destruct (o_log o); reflexivity);
-        match goal with |- context [if ?c then _ else _] => destruct c end; cbn [andb fst]; destruct (o_log o); reflexivity.
-    - destruct (parse_hit_opt (o_hit o)) as [[e|e|e|e|e|raw]|]; cbn [hc_matches andb];
-        try (destruct (o_log o); reflexivity);
-        match goal with |- context [if ?c then _ else _] => destruct c end; cbn [andb fst]; destruct (o_log o); reflexivity.
   Qed.
 
 End Inv.
@@ -1210,10 +1731,10 @@ Proof.
 Qed.
 
 (* ------------------------------------------------------------------------- *)
-(** * Refutations of the full property (concrete witnesses)                    *)
-(* Witness program: source file 1; line 10 has one location (global 100), line 20 belongs to
-   a generic function with two instantiations (200 and 300); function name 7 starts at 100,
-   function 8 at 500 and 600; load bias 4096. *)
+(** * Witness histories                                                        *)
+(* Witness program: source file 1; line 10 has one location (global 100), line 12 one (120),
+   line 20 belongs to a generic function with two instantiations (200 and 300); function
+   name 7 starts at 100, function 8 at 500 and 600; load bias 4096; initial counter 1. *)
 Definition w_rl (src line : N) : list N :=
   if line =? 10 then [100] else if line =? 12 then [120] else if line =? 20 then [200; 300] else [].
 Definition w_rf (f : N) : list N := if f =? 7 then [100] else if f =? 8 then [500; 600] else [].
@@ -1221,6 +1742,7 @@ Definition w_va (a : N) : bool := 4096 <=? a.
 Definition w_bias : N := 4096.
 Definition w_run := run w_rl w_rf w_va w_va w_bias (sess_init 1).
 Definition w_exp (h : list req) := expected_locs w_rl w_rf w_va w_bias (spec_run h).
+Definition w_guard := guard w_rl w_rf w_va w_bias 1.
 Definition w_locs (r : res (sess * list resp)) : option (list N) :=
   match r with Ok (s, _) => Some (reg_locs w_bias (s_dbg s)) | _ => None end.
 Definition w_last (r : res (sess * list resp)) : option resp :=
@@ -1230,76 +1752,53 @@ Definition o_cond_only : opts := mk_opts true None false.
 Definition o_log_only : opts := mk_opts false None true.
 Definition o_hit2 : opts := mk_opts false (Some [50]) false.      (* hitCondition "2" *)
 
-(** "replace" fails across the start of the program: the record made before
-    configurationDone holds Address::Global(g); after the start the registry is keyed by the
-    relocated address and remove_by_addr(Global g) finds nothing. *)
-Theorem C13_phase_refuted :
-  let h := [SetSource 1 [(10, no_opts)]; Start; SetSource 1 []] in
-  w_exp h = [] /\ w_locs (w_run h) = Some [4196] /\ w_last (w_run h) = Some (RBps []).
-Proof. vm_compute. repeat split. Qed.
-
-(** options given before configurationDone (the standard client flow) are never consulted:
-    the hit is looked up by Address::Relocated, the record holds Address::Global. *)
-Theorem C13_phase_options_refuted :
-  (* a false condition still stops *)
-  w_last (w_run [SetSource 1 [(10, o_cond_only)]; Start; Hit 4196 (Some false)]) = Some (RHit true 0)
-  /\ spec_stop o_cond_only 1 (Some false) = false
-  (* a logpoint stops and logs nothing *)
-  /\ w_last (w_run [SetSource 1 [(10, o_log_only)]; Start; Hit 4196 (Some true)]) = Some (RHit true 0)
-  /\ spec_stop o_log_only 1 (Some true) = false
-  (* hitCondition "2" stops at the first hit *)
-  /\ w_last (w_run [SetSource 1 [(10, o_hit2)]; Start; Hit 4196 (Some true)]) = Some (RHit true 0)
-  /\ spec_stop o_hit2 1 (Some true) = false
-  (* the same three requests sent after the start behave as specified *)
-  /\ w_last (w_run [Start; SetSource 1 [(10, o_cond_only)]; Hit 4196 (Some false)]) = Some (RHit false 0)
-  /\ w_last (w_run [Start; SetSource 1 [(10, o_log_only)]; Hit 4196 (Some true)]) = Some (RHit false 1)
-  /\ w_last (w_run [Start; SetSource 1 [(10, o_hit2)]; Hit 4196 (Some true)]) = Some (RHit false 0).
-Proof. vm_compute. repeat split. Qed.
-
-(** a line with two locations: both are installed, only the first is remembered; the second
-    is never removed and ignores the options. *)
-Theorem C13_multi_location_refuted :
-  let h := [Start; SetSource 1 [(20, no_opts)]; SetSource 1 []] in
-  w_exp h = [] /\ w_locs (w_run h) = Some [4396]
-  /\ w_last (w_run [Start; SetSource 1 [(20, o_log_only)]; Hit 4396 (Some true)]) = Some (RHit true 0).
-Proof. vm_compute. repeat split. Qed.
-
-(** two requested breakpoints of different kinds at one address: clearing one kind removes
-    the other kind's breakpoint, which stays reported as verified. *)
+(** STILL OPEN.  Two requested breakpoints of different kinds at one address: clearing one
+    kind removes the other kind's breakpoint (the registry holds one breakpoint per address),
+    which stays reported as verified. *)
 Theorem C13_shared_location_refuted :
   let h := [Start; SetSource 1 [(10, no_opts)]; SetFunction [(Some 7, no_opts)]; SetFunction []] in
-  w_exp h = [4196] /\ w_locs (w_run h) = Some [].
+  w_exp h = [4196] /\ w_locs (w_run h) = Some [] /\ w_guard h = false.
 Proof. vm_compute. repeat split. Qed.
 
-(** after the debuggee exited the registry is keyed by Global addresses again while the
-    records hold Relocated ones: an emptied set comes back at the next restart. *)
-Theorem C13_exited_refuted :
-  let h := [Start; SetSource 1 [(10, no_opts)]; Exit; SetSource 1 []; Restart] in
-  w_exp h = [] /\ w_locs (w_run h) = Some [4196].
-Proof. vm_compute. repeat split. Qed.
-
-(** an instruction breakpoint set before the start is always answered verified, even at an
-    address where nothing can be installed; it is dropped silently at the start. *)
+(** STILL OPEN.  An instruction breakpoint set while the debuggee is not running is always
+    answered verified, even at an address where nothing can be installed; it is dropped
+    silently at the start. *)
 Theorem C13_instr_verified_refuted :
   let h := [SetInstruction [(Some 5, no_opts)]; Start] in
-  w_exp h = [] /\ w_locs (w_run h) = Some []
+  w_exp h = [] /\ w_locs (w_run h) = Some [] /\ w_guard h = false
   /\ w_last (w_run [SetInstruction [(Some 5, no_opts)]]) = Some (RBps [(true, 1)]).
 Proof. vm_compute. repeat split. Qed.
 
-(** the guard of C13_replace_partial is satisfiable by a history with all kinds of request *)
-Definition w_good : list req :=
-  [Start; SetSource 1 [(10, o_cond_only); (12, o_hit2)]; SetFunction [(Some 8, o_log_only)];
-   Hit 4196 (Some true); Restart; SetSource 1 [(12, no_opts)]; SetInstruction [(Some 4196, no_opts)];
-   Exit; Restart; SetFunction []; Hit 4216 (Some true)].
-Example guard_nonvacuous :
-  guard w_rl w_rf w_va w_bias w_good = true /\ w_locs (w_run w_good) = Some [4196; 4216]
-  /\ w_exp w_good = [4216; 4196].
+(* FIXED by a630610 / 5361f91 (were C13_phase_refuted, C13_phase_options_refuted,
+   C13_multi_location_refuted, C13_exited_refuted on the old model, kept in
+   ProofsDapBp_old.v.bak):
+     C13_phase_refuted_old          [SetSource 1 [10]; Start; SetSource 1 []]           registry [4196], expected []
+     C13_phase_options_refuted_old  [SetSource 1 [10 opts]; Start; Hit 4196]            stopped regardless of condition / logpoint / hit count
+     C13_multi_location_refuted_old [Start; SetSource 1 [20]; SetSource 1 []]           registry [4396], expected []
+     C13_exited_refuted_old         [Start; SetSource 1 [10]; Exit; SetSource 1 []; Restart]  registry [4196], expected []
+   The same histories on the current model satisfy the guard and the property: *)
+Example C13_formerly_refuted_now_hold :
+  (let h := [SetSource 1 [(10, no_opts)]; Start; SetSource 1 []] in
+   w_guard h = true /\ w_exp h = [] /\ w_locs (w_run h) = Some [])
+  /\ (let h := [Start; SetSource 1 [(20, no_opts)]; SetSource 1 []] in
+      w_guard h = true /\ w_exp h = [] /\ w_locs (w_run h) = Some [])
+  /\ (let h := [Start; SetSource 1 [(10, no_opts)]; Exit; SetSource 1 []; Restart] in
+      w_guard h = true /\ w_exp h = [] /\ w_locs (w_run h) = Some [])
+  /\ w_last (w_run [SetSource 1 [(10, o_cond_only)]; Start; Hit 4196 (Some false)]) = Some (RHit false 0)
+  /\ w_last (w_run [SetSource 1 [(10, o_log_only)]; Start; Hit 4196 (Some true)]) = Some (RHit false 1)
+  /\ w_last (w_run [SetSource 1 [(10, o_hit2)]; Start; Hit 4196 (Some true)]) = Some (RHit false 0)
+  /\ w_last (w_run [Start; SetSource 1 [(20, o_log_only)]; Hit 4396 (Some true)]) = Some (RHit false 1).
 Proof. vm_compute. repeat split. Qed.
-(* the refuting histories are (and must be) rejected by the guard *)
-Example guard_rejects :
-  guard w_rl w_rf w_va w_bias [SetSource 1 [(10, no_opts)]; Start; SetSource 1 []] = false /\
-  guard w_rl w_rf w_va w_bias [Start; SetSource 1 [(20, no_opts)]; SetSource 1 []] = false /\
-  guard w_rl w_rf w_va w_bias [Start; SetSource 1 [(10, no_opts)]; SetFunction [(Some 7, no_opts)]; SetFunction []] = false.
+
+(** the guard of C13_replace is satisfiable by a history with every kind of request in every
+    phase (before the start, running, after the exit, across restarts) and a two-location line *)
+Definition w_good : list req :=
+  [SetSource 1 [(10, o_cond_only); (20, o_hit2)]; SetFunction [(Some 8, o_log_only)]; SetInstruction [(Some 4236, no_opts)];
+   Start; Hit 4196 (Some true); Hit 4396 (Some true); SetSource 1 [(12, no_opts); (20, o_log_only)]; Restart;
+   Exit; SetFunction []; SetSource 2 [(10, no_opts)]; Restart; SetInstruction []; Hit 4196 (Some true)].
+Example guard_nonvacuous :
+  w_guard w_good = true /\ w_locs (w_run w_good) = Some [4396; 4296; 4216; 4196]
+  /\ w_exp w_good = [4196; 4216; 4296; 4396].
 Proof. vm_compute. repeat split. Qed.
 
 (* HitCondition samples (bytes of the strings in the comments) *)
@@ -1314,18 +1813,12 @@ Example hc_samples :
   /\ (exists r, hc_parse [49;56;52;52;54;55;52;52;48;55;51;55;48;57;53;53;49;54;49;54] = HInvalid r). (* 2^64 *)
 Proof. vm_compute. repeat split. eexists; reflexivity. Qed.
 
-(* the case checkers on hand-made observations: a run that behaves as specified and as the
-   model (0), the model's own defective behaviour (2), a corrected implementation (1) *)
+(* the case checkers on hand-made observations: the pre-fix adapter's behaviour (2), the current
+   behaviour (0), a two-location line whose places share one hit counter (0) *)
 Definition ex_tables (steps : list (creq * resp * list (N * N * N))) : hist_case :=
   mk_hist_case [((1, 10), [100]); ((1, 20), [200; 300])] [(7, [100])] [4196] [] 4096 1 steps.
 Example hist_check_examples :
   hist_check (ex_tables
-    [ (CStart, RRun true, []);
-      (CSetSource 1 [(10, mk_opts true None false)], RBps [(true, 1)], [(1, 0, 4196)]);
-      (CHit 4196 (Some false), RHit false 0, [(1, 0, 4196)]);
-      (CHit 4196 (Some true), RHit true 0, [(1, 0, 4196)]);
-      (CSetSource 1 [], RBps [], []) ]) = 0
-  /\ hist_check (ex_tables
     [ (CSetSource 1 [(10, mk_opts true None false)], RBps [(true, 1)], [(1, 1, 100)]);
       (CStart, RRun true, [(1, 0, 4196)]);
       (CHit 4196 (Some false), RHit true 0, [(1, 0, 4196)]);
@@ -1334,7 +1827,13 @@ Example hist_check_examples :
     [ (CSetSource 1 [(10, mk_opts true None false)], RBps [(true, 1)], [(1, 1, 100)]);
       (CStart, RRun true, [(1, 0, 4196)]);
       (CHit 4196 (Some false), RHit false 0, [(1, 0, 4196)]);
-      (CSetSource 1 [], RBps [], []) ]) = 1
+      (CSetSource 1 [], RBps [], []) ]) = 0
+  /\ hist_check (ex_tables
+    [ (CStart, RRun true, []);
+      (CSetSource 1 [(20, mk_opts false (Some [50]) false)], RBps [(true, 1)], [(1, 0, 4296); (2, 0, 4396)]);
+      (CHit 4296 (Some true), RHit false 0, [(1, 0, 4296); (2, 0, 4396)]);
+      (CHit 4396 (Some true), RHit true 0, [(1, 0, 4296); (2, 0, 4396)]);
+      (CSetSource 1 [], RBps [], []) ]) = 0
   /\ hc_check ([32; 62; 61; 32; 43; 53; 32], 7, (1, 5), true) = 0
   /\ hc_check ([37; 50], 7, (5, 0), true) = 0.
 Proof. vm_compute. repeat split. Qed.
